@@ -139,6 +139,16 @@ def counter_stats(c: Counter):
     return {"total": c.total, "by_type": dict(c.by_type)}
 
 
+def _seed(seed: int) -> None:
+    """Seed every global RNG the library draws from (random, numpy)."""
+    random.seed(seed)
+    try:
+        import numpy as np
+        np.random.seed(seed % (2 ** 32))
+    except ImportError:  # pragma: no cover
+        pass
+
+
 def T(s: float) -> Instant:
     return Instant.from_seconds(s)
 
@@ -216,6 +226,29 @@ class DelayServer(Entity):
         return None
 
 
+class LoadedBackend(Entity):
+    """Directly-invoked backend whose service time grows with the number of requests in flight."""
+
+    def __init__(self, name, base=0.01, per_inflight=0.01, downstream=None):
+        super().__init__(name)
+        self.base, self.per_inflight, self.downstream = base, per_inflight, downstream
+        self.in_flight = 0
+        self.peak = 0
+        self.started = 0
+        self.completed = 0
+
+    def handle_event(self, event):
+        self.started += 1
+        self.in_flight += 1
+        self.peak = max(self.peak, self.in_flight)
+        yield self.base + self.per_inflight * self.in_flight
+        self.in_flight -= 1
+        self.completed += 1
+        if self.downstream is not None:
+            return [self.forward(event, self.downstream)]
+        return None
+
+
 class ReplyServer(Entity):
     """Serves requests after `delay` and resolves context['reply_future'] if present."""
 
@@ -239,9 +272,10 @@ class ReplyServer(Entity):
 class Script(Entity):
     """Runs one generator function per 'Start' event: fn(self, event) -> generator."""
 
-    def __init__(self, name, fn):
+    def __init__(self, name, fn, catch=True):
         super().__init__(name)
         self.fn = fn
+        self.catch = catch  # False: exceptions raised inside the process propagate out of sim.run()
         self.runs = 0
         self.done = 0
         self.errors: list[str] = []
@@ -252,6 +286,8 @@ class Script(Entity):
         try:
             result = yield from self.fn(self, event)
         except Exception as e:  # noqa: BLE001 - recorded, part of the observation
+            if not self.catch:
+                raise
             self.errors.append(type(e).__name__ + ":" + str(e)[:60])
             result = None
         self.done += 1
@@ -272,7 +308,7 @@ def script_stats(s: Script):
 
 @scenario
 def core_source_constant(seed, variant):
-    random.seed(seed)
+    _seed(seed)
     v = variant % 3
     sink = Sink("sink")
     counter = Counter("counter")
@@ -291,7 +327,7 @@ def core_source_constant(seed, variant):
 
 @scenario
 def core_source_poisson(seed, variant):
-    random.seed(seed)
+    _seed(seed)
     v = variant % 3
     sink = Sink("sink")
     server = DelayServer("server", delay=[0.01, 0.03, 0.1][v], downstream=sink)
@@ -307,17 +343,22 @@ def core_source_poisson(seed, variant):
 
 @scenario
 def core_source_profiles(seed, variant):
-    random.seed(seed)
-    v = variant % 4
+    _seed(seed)
+    v = variant % 5
     sink = Sink("sink")
     server = DelayServer("server", delay=0.02, downstream=sink)
+    # (profiles with several discontinuities make the library's numerical integration slow; variant 4 is a
+    #  steep ramp for which ArrivalTimeProvider.next_arrival_time can take minutes of wall time for some seeds)
     profile = [
-        LinearRampProfile(duration_s=6.0, start_rate=5.0, end_rate=80.0),
-        SpikeProfile(baseline_rate=10.0, spike_rate=120.0, warmup_s=2.0, spike_duration_s=2.0),
-        LinearRampProfile(duration_s=5.0, start_rate=60.0, end_rate=2.0),
-        SpikeProfile(baseline_rate=4.0, spike_rate=200.0, warmup_s=1.0, spike_duration_s=1.0),
+        # variants 0-2: the ramp's kink (t = duration_s) lies beyond the end of the run
+        LinearRampProfile(duration_s=20.0, start_rate=5.0, end_rate=255.0),
+        LinearRampProfile(duration_s=20.0, start_rate=10.0, end_rate=170.0),
+        LinearRampProfile(duration_s=20.0, start_rate=60.0, end_rate=5.0),
+        SpikeProfile(baseline_rate=8.0, spike_rate=90.0, warmup_s=2.0, spike_duration_s=100.0),
+        LinearRampProfile(duration_s=4.0, start_rate=10.0, end_rate=500.0),
     ][v]
-    src = Source.with_profile(profile=profile, target=server, poisson=(v % 2 == 0), name="src", stop_after=7.0)
+    src = Source.with_profile(profile=profile, target=server, poisson=(v in (0, 3, 4)), name="src",
+                              stop_after=(7.0 if v != 4 else 2.0))
     sim = Simulation(sources=[src], entities=[server, sink], duration=8.0)
 
     def stats():
@@ -329,7 +370,7 @@ def core_source_profiles(seed, variant):
 @scenario
 def core_generators_futures(seed, variant):
     """Generators yielding delays, side effects, futures, any_of / all_of."""
-    random.seed(seed)
+    _seed(seed)
     v = variant % 3
     backends = [ReplyServer(f"backend{i}", delay=[0.01, 0.05, 0.12][(i + v) % 3], fail_every=[0, 5, 3][v])
                 for i in range(3)]
@@ -360,5 +401,3341 @@ def core_generators_futures(seed, variant):
     def stats():
         return {"sink": sink_stats(sink), "orch": script_stats(orchestrator),
                 "backends": [b.handled for b in backends]}
+
+    return sim, stats
+
+
+# ---------------------------------------------------------------------------
+# queues, queue drivers, queue policies
+# ---------------------------------------------------------------------------
+
+class LimitedWorker(Entity):
+    """Worker with a concurrency limit, used behind an explicit Queue + QueueDriver."""
+
+    def __init__(self, name, service, concurrency=1, downstream=None):
+        super().__init__(name)
+        self.service, self.concurrency, self.downstream = service, concurrency, downstream
+        self.in_flight = 0
+        self.processed = 0
+        self.order: list = []
+
+    def has_capacity(self):
+        return self.in_flight < self.concurrency
+
+    def handle_event(self, event):
+        self.in_flight += 1
+        yield self.service.get_latency(self.now).to_seconds()
+        self.in_flight -= 1
+        self.processed += 1
+        if len(self.order) < 200:
+            self.order.append(event.context.get("request_id"))
+        if self.downstream is not None:
+            return [self.forward(event, self.downstream)]
+        return []
+
+
+@scenario
+def queue_driver_basic_policies(seed, variant):
+    """Explicit Queue + QueueDriver + worker; FIFO bounded / LIFO / priority, overloaded."""
+    _seed(seed)
+    v = variant % 4
+    sink = Sink("sink")
+    policy = [FIFOQueue(capacity=10), LIFOQueue(capacity=25),
+              PriorityQueue(key=lambda e: e.context.get("prio", 0)),
+              FIFOQueue()][v]
+    worker = LimitedWorker("worker", [ConstantLatency(0.05), ExponentialLatency(0.04), ConstantLatency(0.03),
+                                      ExponentialLatency(0.02)][v],
+                           concurrency=[1, 2, 1, 3][v], downstream=sink)
+    driver = QueueDriver(name="driver", queue=None, target=worker)
+    queue = Queue(name="queue", egress=driver, policy=policy)
+    driver.queue = queue
+    src_a = req_source("src_a", queue, [30, 60, 25, 100][v], poisson=True, stop_after=4.0,
+                       ctx=lambda t, n: {"prio": n % 3})
+    src_b = req_source("src_b", queue, [10, 20, 25, 80][v], poisson=False, stop_after=4.0,
+                       ctx=lambda t, n: {"prio": 5})
+    sim = Simulation(sources=[src_a, src_b], entities=[queue, driver, worker, sink], duration=6.0)
+
+    def stats():
+        return {"sink": sink_stats(sink), "queue": {"accepted": queue.stats_accepted, "dropped": queue.stats_dropped,
+                                                    "depth": queue.depth},
+                "worker": {"processed": worker.processed, "in_flight": worker.in_flight, "order": worker.order}}
+
+    return sim, stats
+
+
+@scenario
+def queue_policies_aqm(seed, variant):
+    """Server fronted by CoDel / RED / AdaptiveLIFO under a load spike."""
+    from happysimulator.components.queue_policies import AdaptiveLIFO, CoDelQueue, REDQueue
+    from happysimulator.components.server import Server
+
+    _seed(seed)
+    v = variant % 3
+    sink = Sink("sink")
+    holder = {}
+    clock = lambda: holder["server"].now  # noqa: E731
+    policy = [CoDelQueue(target_delay=0.02, interval=0.2, capacity=200, clock_func=clock),
+              REDQueue(min_threshold=5, max_threshold=20, max_probability=0.3, weight=0.2),
+              AdaptiveLIFO(congestion_threshold=8, capacity=40)][v]
+    server = Server("server", concurrency=[1, 2, 1][v],
+                    service_time=[ConstantLatency(0.02), ExponentialLatency(0.03), ConstantLatency(0.025)][v],
+                    queue_policy=policy, downstream=sink)
+    holder["server"] = server
+    src = req_source("src", server, [70, 90, 60][v], poisson=True, stop_after=5.0)
+    burst = req_source("burst", server, [40, 30, 50][v], poisson=False, stop_after=2.0)
+    sim = Simulation(sources=[src, burst], entities=[server, sink], duration=7.0)
+
+    def stats():
+        return {"sink": sink_stats(sink), "server": pub(server), "policy": pub(policy),
+                "accepted": server.stats_accepted, "dropped": server.stats_dropped}
+
+    return sim, stats
+
+
+@scenario
+def queue_policies_fair_deadline(seed, variant):
+    """FairQueue / WeightedFairQueue / DeadlineQueue with several tenants of unequal rate."""
+    from happysimulator.components.queue_policies import DeadlineQueue, FairQueue, WeightedFairQueue
+    from happysimulator.components.server import Server
+
+    _seed(seed)
+    v = variant % 3
+    sink = Sink("sink")
+    holder = {}
+    weights = {"gold": 4, "silver": 2, "bronze": 1}
+    policy = [
+        FairQueue(get_flow_id=lambda e: e.context["tenant"], max_flows=8, per_flow_capacity=20),
+        WeightedFairQueue(get_flow_id=lambda e: e.context["tenant"], get_weight=lambda f: weights[f],
+                          capacity=60, per_flow_capacity=30),
+        DeadlineQueue(get_deadline=lambda e: e.context["deadline"], capacity=100,
+                      clock_func=lambda: holder["server"].now),
+    ][v]
+    server = Server("server", concurrency=[1, 2, 1][v], service_time=ConstantLatency([0.02, 0.03, 0.015][v]),
+                    queue_policy=policy, downstream=sink)
+    holder["server"] = server
+    per_tenant = Counter("per_tenant")
+    srcs = []
+    for i, (tenant, rate) in enumerate([("gold", 20), ("silver", 40), ("bronze", 80)]):
+        srcs.append(req_source(f"src_{tenant}", server, rate, poisson=(i != 1), stop_after=4.0,
+                               ctx=lambda t, n, tenant=tenant, i=i: {"tenant": tenant,
+                                                                     "deadline": t + (0.05 + 0.1 * i)}))
+    sim = Simulation(sources=srcs, entities=[server, sink, per_tenant], duration=6.0)
+
+    def stats():
+        return {"sink": sink_stats(sink), "server": pub(server), "policy": pub(policy),
+                "accepted": server.stats_accepted, "dropped": server.stats_dropped}
+
+    return sim, stats
+
+
+@scenario
+def queue_queued_resource_custom(seed, variant):
+    """QueuedResource subclass with has_capacity and a two-stage pipeline (one feeding the next)."""
+    _seed(seed)
+    v = variant % 3
+
+    class Stage(QueuedResource):
+        def __init__(self, name, service_s, concurrency, downstream, policy=None):
+            super().__init__(name, policy=policy)
+            self.service_s, self.concurrency, self.downstream = service_s, concurrency, downstream
+            self.in_flight = 0
+            self.processed = 0
+
+        def has_capacity(self):
+            return self.in_flight < self.concurrency
+
+        def handle_queued_event(self, event):
+            self.in_flight += 1
+            try:
+                yield self.service_s
+            finally:
+                self.in_flight -= 1
+            self.processed += 1
+            return [self.forward(event, self.downstream)]
+
+    sink = Sink("sink")
+    stage2 = Stage("stage2", [0.03, 0.02, 0.05][v], [1, 2, 4][v], sink,
+                   policy=[FIFOQueue(capacity=15), LIFOQueue(), FIFOQueue()][v])
+    stage1 = Stage("stage1", [0.01, 0.03, 0.02][v], [2, 1, 3][v], stage2)
+    src = req_source("src", stage1, [50, 40, 90][v], poisson=(v != 0), stop_after=4.0)
+    sim = Simulation(sources=[src], entities=[stage1, stage2, sink], duration=6.0)
+
+    def stats():
+        return {"sink": sink_stats(sink),
+                "stages": [{"processed": s.processed, "depth": s.depth, "accepted": s.stats_accepted,
+                            "dropped": s.stats_dropped, "in_flight": s.in_flight} for s in (stage1, stage2)]}
+
+    return sim, stats
+
+
+# ---------------------------------------------------------------------------
+# servers, thread pool, concurrency models
+# ---------------------------------------------------------------------------
+
+@scenario
+def server_concurrency_models(seed, variant):
+    """Server with Fixed / Dynamic (rescaled mid-run) / Weighted concurrency."""
+    from happysimulator.components.server import DynamicConcurrency, FixedConcurrency, Server, WeightedConcurrency
+
+    _seed(seed)
+    v = variant % 3
+    sink = Sink("sink")
+    model = [FixedConcurrency(2), DynamicConcurrency(initial=1, min_limit=1, max_limit=6), WeightedConcurrency(6)][v]
+    server = Server("server", concurrency=model,
+                    service_time=[ExponentialLatency(0.04), ConstantLatency(0.05), ExponentialLatency(0.03)][v],
+                    queue_capacity=[20, None, 50][v], downstream=sink)
+    src = req_source("src", server, [60, 50, 80][v], poisson=True, stop_after=5.0,
+                     ctx=lambda t, n: {"metadata": {"weight": 1 + (n % 3)}})
+    sim = Simulation(sources=[src], entities=[server, sink], duration=7.0)
+    if v == 1:
+        for k, lim in enumerate([2, 4, 6, 3, 1]):
+            sim.schedule(Event.once(time=T(0.8 * (k + 1)), event_type="Rescale",
+                                    fn=lambda e, lim=lim: model.set_limit(lim)))
+
+    def stats():
+        return {"sink": sink_stats(sink), "server": pub(server), "model": pub(model),
+                "accepted": server.stats_accepted, "dropped": server.stats_dropped,
+                "p99_service": server.get_service_time_percentile(0.99)}
+
+    return sim, stats
+
+
+@scenario
+def server_thread_pool(seed, variant):
+    from happysimulator.components.server import ThreadPool
+
+    _seed(seed)
+    v = variant % 3
+    pool = ThreadPool("pool", num_workers=[2, 4, 1][v], queue_capacity=[None, 30, 10][v],
+                      default_processing_time=[0.02, 0.05, 0.04][v],
+                      queue_policy=None if v != 1 else LIFOQueue(capacity=30))
+    src = req_source("src", pool, [80, 120, 40][v], poisson=(v != 2), stop_after=4.0,
+                     ctx=lambda t, n: {"metadata": {"processing_time": 0.01 * (1 + n % 5)} if n % 2 else {}})
+    sim = Simulation(sources=[src], entities=[pool], duration=6.0)
+
+    def stats():
+        return {"pool": pub(pool), "accepted": pool.stats_accepted, "dropped": pool.stats_dropped,
+                "p50": pool.get_processing_time_percentile(0.5)}
+
+    return sim, stats
+
+
+@scenario
+def server_async_server(seed, variant):
+    from happysimulator.components.server import AsyncServer
+
+    _seed(seed)
+    v = variant % 3
+    done = Counter("done")
+
+    def io_handler(event):
+        yield [0.02, 0.05, 0.01][v]
+        return [Event(time=server.now, event_type="IoDone", target=done)]
+
+    server = AsyncServer("async", max_connections=[50, 8, 200][v],
+                         cpu_work_distribution=[ConstantLatency(0.005), ExponentialLatency(0.01),
+                                                ConstantLatency(0.002)][v],
+                         io_handler=io_handler if v != 2 else None)
+    src = req_source("src", server, [100, 150, 300][v], poisson=True, stop_after=3.0)
+    sim = Simulation(sources=[src], entities=[server, done], duration=5.0)
+
+    def stats():
+        return {"server": pub(server), "done": counter_stats(done)}
+
+    return sim, stats
+
+
+# ---------------------------------------------------------------------------
+# clients
+# ---------------------------------------------------------------------------
+
+def client_source(name, client, rate, *, poisson=False, stop_after=None):
+    def fn(time, n):
+        ev = client.send_request(payload=f"q{n}")
+        ev.time = time
+        return [ev]
+
+    return make_source(name, fn, rate, poisson=poisson, stop_after=stop_after)
+
+
+@scenario
+def client_timeout_retry(seed, variant):
+    """Several Clients with timeouts and retry policies against one overloaded Server."""
+    from happysimulator.components.client import Client, DecorrelatedJitter, ExponentialBackoff, FixedRetry, NoRetry
+    from happysimulator.components.server import Server
+
+    _seed(seed)
+    v = variant % 4
+    # (a queued Server completes the client's request at enqueue time; the directly invoked
+    #  LoadedBackend makes response times, hence timeouts and retries, load dependent)
+    if v == 0:
+        server = Server("server", concurrency=1, service_time=ConstantLatency(0.03), queue_capacity=30)
+    else:
+        server = LoadedBackend("server", base=[0, 0.02, 0.03, 0.01][v], per_inflight=[0, 0.01, 0.012, 0.016][v])
+    outcomes = {"ok": 0, "fail": 0}
+
+    def ok(req, resp):
+        outcomes["ok"] += 1
+
+    def fail(req, reason):
+        outcomes["fail"] += 1
+
+    policies = [
+        [NoRetry(), FixedRetry(max_attempts=3, delay=0.05)],
+        [ExponentialBackoff(max_attempts=4, initial_delay=0.02, max_delay=0.5, multiplier=2.0, jitter=0.01),
+         FixedRetry(max_attempts=2, delay=0.1)],
+        [DecorrelatedJitter(max_attempts=4, base_delay=0.01, max_delay=0.3), NoRetry(),
+         ExponentialBackoff(max_attempts=3, initial_delay=0.05, max_delay=0.2)],
+        [FixedRetry(max_attempts=5, delay=0.0), FixedRetry(max_attempts=5, delay=0.01)],
+    ][v]
+    clients = [Client(f"client{i}", target=server, timeout=[0.1, 0.08, 0.15, 0.05][v], retry_policy=p,
+                      on_success=ok, on_failure=fail) for i, p in enumerate(policies)]
+    srcs = [client_source(f"src{i}", c, [25, 30, 15, 20][v], poisson=(i % 2 == 0), stop_after=4.0)
+            for i, c in enumerate(clients)]
+    sim = Simulation(sources=srcs, entities=[server, *clients], duration=7.0)
+
+    def stats():
+        return {"server": pub(server), "clients": [pub(c) for c in clients], "outcomes": dict(outcomes)}
+
+    return sim, stats
+
+
+@scenario
+def client_connection_pool(seed, variant):
+    """PooledClients sharing a small ConnectionPool (contention, wait timeouts, idle timeouts)."""
+    from happysimulator.components.client import ConnectionPool, ExponentialBackoff, FixedRetry, PooledClient
+
+    _seed(seed)
+    v = variant % 3
+    db = DelayServer("db", delay=[0.02, 0.05, 0.03][v])
+    pool = ConnectionPool("pool", target=db, min_connections=[0, 2, 1][v], max_connections=[3, 2, 5][v],
+                          connection_timeout=[0.5, 0.05, 0.2][v], idle_timeout=[0.3, 5.0, 0.1][v],
+                          connection_latency=[ConstantLatency(0.01), ExponentialLatency(0.02), ConstantLatency(0.0)][v])
+    clients = [PooledClient(f"pclient{i}", connection_pool=pool, timeout=[None, 0.2, 0.1][v],
+                            retry_policy=[None, FixedRetry(max_attempts=2, delay=0.02),
+                                          ExponentialBackoff(max_attempts=3, initial_delay=0.01, max_delay=0.1)][v])
+               for i in range([2, 3, 2][v])]
+    srcs = [client_source(f"src{i}", c, [40, 30, 60][v], poisson=(i == 0), stop_after=3.0)
+            for i, c in enumerate(clients)]
+    sim = Simulation(sources=srcs, entities=[db, pool, *clients], duration=5.0)
+    if v != 0:
+        sim.schedule(pool.warmup())
+
+    def stats():
+        return {"db": pub(db), "pool": pub(pool), "clients": [pub(c) for c in clients]}
+
+    return sim, stats
+
+
+# ---------------------------------------------------------------------------
+# load balancers
+# ---------------------------------------------------------------------------
+
+class Backend(Entity):
+    """Backend with `active_requests`, load-dependent latency and an outage window.
+
+    During the outage window requests take `outage_delay` seconds and are flagged as failed in
+    the shared mutable context entry ``result``.
+    """
+
+    def __init__(self, name, base=0.01, per_inflight=0.0, outage=None, outage_delay=1.0, downstream=None):
+        super().__init__(name)
+        self.base, self.per_inflight = base, per_inflight
+        self.outage, self.outage_delay, self.downstream = outage, outage_delay, downstream
+        self.active_requests = 0
+        self.peak = 0
+        self.started = 0
+        self.completed = 0
+        self.failed = 0
+        self.by_type: dict[str, int] = {}
+
+    def in_outage(self):
+        if self.outage is None:
+            return False
+        t = self.now.to_seconds()
+        return self.outage[0] <= t < self.outage[1]
+
+    def handle_event(self, event):
+        self.started += 1
+        self.by_type[event.event_type] = self.by_type.get(event.event_type, 0) + 1
+        self.active_requests += 1
+        self.peak = max(self.peak, self.active_requests)
+        bad = self.in_outage()
+        yield (self.outage_delay if bad else self.base + self.per_inflight * self.active_requests)
+        self.active_requests -= 1
+        self.completed += 1
+        res = event.context.get("result")
+        if bad:
+            self.failed += 1
+            if isinstance(res, dict):
+                res["failed"] = True
+        if self.downstream is not None:
+            return [self.forward(event, self.downstream)]
+        return None
+
+
+def result_ctx(t, n):
+    return {"result": {}, "metadata": {"client_id": f"c{n % 7}", "key": f"k{n % 23}"}}
+
+
+@scenario
+def lb_strategies_stateless(seed, variant):
+    """RoundRobin / WeightedRoundRobin / Random / IPHash / ConsistentHash over unequal backends."""
+    from happysimulator.components.load_balancer import (ConsistentHash, IPHash, LoadBalancer, Random, RoundRobin,
+                                                         WeightedRoundRobin)
+
+    _seed(seed)
+    v = variant % 5
+    backends = [Backend(f"backend{i}", base=0.01 * (i + 1), per_inflight=0.002 * i) for i in range(4)]
+    strategy = [RoundRobin(), WeightedRoundRobin(), Random(), IPHash(),
+                ConsistentHash(virtual_nodes=20, get_key=lambda e: e.context["metadata"]["key"])][v]
+    lb = LoadBalancer("lb", backends=backends, strategy=strategy)
+    if v == 1:
+        for i, b in enumerate(backends):
+            strategy.set_weight(b, 4 - i)
+    src = req_source("src", lb, [80, 120, 60, 100, 90][v], poisson=True, stop_after=4.0, ctx=result_ctx)
+    sim = Simulation(sources=[src], entities=[lb, *backends], duration=6.0)
+    # a backend leaves and re-joins mid-run
+    sim.schedule(Event.once(time=T(1.5), event_type="Remove", fn=lambda e: lb.remove_backend(backends[1])))
+    sim.schedule(Event.once(time=T(2.5), event_type="Add", fn=lambda e: lb.add_backend(backends[1], weight=2)))
+
+    def stats():
+        return {"lb": pub(lb), "backends": [pub(b) for b in backends]}
+
+    return sim, stats
+
+
+@scenario
+def lb_strategies_load_aware(seed, variant):
+    """LeastConnections / WeightedLeastConnections / LeastResponseTime / PowerOfTwoChoices + HealthChecker."""
+    from happysimulator.components.load_balancer import (HealthChecker, LeastConnections, LeastResponseTime,
+                                                         LoadBalancer, PowerOfTwoChoices, WeightedLeastConnections)
+
+    _seed(seed)
+    v = variant % 4
+    backends = [Backend(f"backend{i}", base=0.01 + 0.01 * i, per_inflight=0.004,
+                        outage=(1.0, 2.5) if i == 0 else None, outage_delay=0.6) for i in range(3)]
+    strategy = [LeastConnections(), WeightedLeastConnections(), LeastResponseTime(alpha=0.5), PowerOfTwoChoices()][v]
+    lb = LoadBalancer("lb", backends=backends, strategy=strategy)
+    if v == 1:
+        for i, b in enumerate(backends):
+            strategy.set_weight(b, 1 + 2 * i)
+    hc = HealthChecker("health", load_balancer=lb, interval=[0.25, 0.4, 0.2, 0.3][v], timeout=[0.1, 0.2, 0.15, 0.05][v],
+                       healthy_threshold=2, unhealthy_threshold=[2, 1, 3, 2][v])
+    srcs = [req_source(f"src{i}", lb, [50, 70, 40, 90][v], poisson=(i == 0), stop_after=4.0, ctx=result_ctx)
+            for i in range(2)]
+    sim = Simulation(sources=srcs, entities=[lb, hc, *backends], duration=5.0)
+    sim.schedule(hc.start())
+
+    def stats():
+        return {"lb": pub(lb), "health": pub(hc), "backends": [pub(b) for b in backends],
+                "states": {b.name: _clean(hc.get_backend_state(b)) for b in backends}}
+
+    return sim, stats
+
+
+# ---------------------------------------------------------------------------
+# resilience wrappers
+# ---------------------------------------------------------------------------
+
+@scenario
+def resilience_circuit_breaker(seed, variant):
+    from happysimulator.components.resilience import CircuitBreaker
+
+    _seed(seed)
+    v = variant % 3
+    backend = Backend("backend", base=0.02, per_inflight=0.003, outage=[(1.0, 2.0), (0.5, 3.0), (1.0, 1.3)][v],
+                      outage_delay=[0.05, 0.2, 0.01][v])
+    transitions: list = []
+    cb = CircuitBreaker("breaker", target=backend, failure_threshold=[3, 5, 2][v], success_threshold=[2, 1, 3][v],
+                        timeout=[0.5, 0.3, 1.0][v], half_open_max_requests=[1, 3, 2][v],
+                        failure_predicate=lambda e: bool(e.context.get("result", {}).get("failed")),
+                        on_state_change=lambda a, b: transitions.append([cb.now.nanoseconds, a.name, b.name]))
+    srcs = [req_source(f"src{i}", cb, [40, 60, 25][v], poisson=(i == 1), stop_after=4.5, ctx=result_ctx)
+            for i in range(2)]
+    sim = Simulation(sources=srcs, entities=[cb, backend], duration=5.0)
+
+    def stats():
+        return {"breaker": pub(cb), "backend": pub(backend), "transitions": transitions}
+
+    return sim, stats
+
+
+@scenario
+def resilience_bulkhead_timeout(seed, variant):
+    """Bulkhead (with wait queue) and TimeoutWrapper in front of a slow backend, alone and chained."""
+    from happysimulator.components.resilience import Bulkhead, TimeoutWrapper
+
+    _seed(seed)
+    v = variant % 4
+    backend = Backend("backend", base=[0.03, 0.05, 0.02, 0.03][v], per_inflight=[0.01, 0.004, 0.0, 0.01][v],
+                      outage=(1.5, 2.0), outage_delay=0.4)
+    timeouts = Counter("timeouts")
+    tw = TimeoutWrapper("timeout", target=backend, timeout=[0.1, 0.15, 0.05, 0.1][v],
+                        on_timeout=lambda e: Event(time=tw.now, event_type="TimedOut", target=timeouts))
+    bh = Bulkhead("bulkhead", target=(tw if v == 3 else backend), max_concurrent=[2, 4, 1, 3][v],
+                  max_wait_queue=[5, 0, 20, 10][v], max_wait_time=[0.2, None, 0.05, None][v])
+    entry = tw if v == 1 else bh
+    srcs = [req_source(f"src{i}", entry, [30, 50, 40, 30][v], poisson=(i == 0), stop_after=4.0, ctx=result_ctx)
+            for i in range(2)]
+    sim = Simulation(sources=srcs, entities=[bh, tw, backend, timeouts], duration=5.0)
+
+    def stats():
+        return {"bulkhead": pub(bh), "timeout": pub(tw), "backend": pub(backend), "timeouts": counter_stats(timeouts)}
+
+    return sim, stats
+
+
+@scenario
+def resilience_fallback_hedge(seed, variant):
+    """Hedge and Fallback (entity or callable fallback) in front of a primary with an outage."""
+    from happysimulator.components.resilience import Fallback, Hedge
+
+    _seed(seed)
+    v = variant % 4
+    primary = Backend("primary", base=0.02, per_inflight=0.004, outage=[(1.0, 2.0), (0.5, 1.0), (2.0, 3.5), (1.0, 1.5)][v],
+                      outage_delay=[0.5, 0.3, 0.08, 0.2][v])
+    secondary = Backend("secondary", base=0.04)
+    degraded = Counter("degraded")
+    fb_target = [secondary, (lambda e: Event(time=fb.now, event_type="Degraded", target=degraded)), secondary,
+                 secondary][v]
+    fb = Fallback("fallback", primary=primary, fallback=fb_target,
+                  failure_predicate=lambda e: bool(e.context.get("result", {}).get("failed")),
+                  timeout=[0.1, 0.2, None, 0.1][v])
+    hedge = Hedge("hedge", target=(fb if v == 3 else primary), hedge_delay=[0.05, 0.03, 0.06, 0.05][v],
+                  max_hedges=[1, 2, 1, 1][v])
+    entry = [hedge, fb, fb, hedge][v]
+    srcs = [req_source(f"src{i}", entry, [30, 45, 60, 30][v], poisson=(i == 0), stop_after=4.0, ctx=result_ctx)
+            for i in range(2)]
+    sim = Simulation(sources=srcs, entities=[hedge, fb, primary, secondary, degraded], duration=5.5)
+
+    def stats():
+        return {"hedge": pub(hedge), "fallback": pub(fb), "primary": pub(primary), "secondary": pub(secondary),
+                "degraded": counter_stats(degraded)}
+
+    return sim, stats
+
+
+# ---------------------------------------------------------------------------
+# rate limiters
+# ---------------------------------------------------------------------------
+
+@scenario
+def ratelimit_policies(seed, variant):
+    """RateLimitedEntity with token bucket / leaky bucket / sliding window / fixed window under bursts."""
+    from happysimulator.components.rate_limiter import (FixedWindowPolicy, LeakyBucketPolicy, RateLimitedEntity,
+                                                        SlidingWindowPolicy, TokenBucketPolicy)
+
+    _seed(seed)
+    v = variant % 4
+    sink = Sink("sink")
+    server = DelayServer("server", delay=0.01, downstream=sink)
+    policy = [TokenBucketPolicy(capacity=10.0, refill_rate=20.0, initial_tokens=3.0),
+              LeakyBucketPolicy(leak_rate=25.0),
+              SlidingWindowPolicy(window_size_seconds=0.5, max_requests=10),
+              FixedWindowPolicy(requests_per_window=8, window_size=0.25)][v]
+    limiter = RateLimitedEntity("limiter", downstream=server, policy=policy, queue_capacity=[50, 20, 30, 1000][v])
+    steady = req_source("steady", limiter, [30, 40, 25, 50][v], poisson=True, stop_after=5.0)
+    burst = req_source("burst", limiter, 200, poisson=False, stop_after=1.5,
+                       profile=None)
+    sim = Simulation(sources=[steady, burst], entities=[limiter, server, sink], duration=8.0)
+
+    def stats():
+        return {"limiter": {"stats": _clean(limiter.stats), "queue_depth": limiter.queue_depth,
+                            "first_forwarded_ns": [t.nanoseconds for t in limiter.forwarded_times[:20]],
+                            "dropped": len(limiter.dropped_times)},
+                "policy": pub(policy), "sink": sink_stats(sink)}
+
+    return sim, stats
+
+
+@scenario
+def ratelimit_adaptive_null(seed, variant):
+    """AdaptivePolicy driven by backend success/failure feedback; NullRateLimiter as the control."""
+    from happysimulator.components.rate_limiter import (AdaptivePolicy, NullRateLimiter, RateAdjustmentReason,
+                                                        RateLimitedEntity)
+
+    _seed(seed)
+    v = variant % 3
+    sink = Sink("sink")
+    policy = AdaptivePolicy(initial_rate=[40.0, 100.0, 10.0][v], min_rate=2.0, max_rate=[200.0, 150.0, 80.0][v],
+                            increase_step=[2.0, None, 5.0][v], decrease_factor=[0.5, 0.7, 0.3][v],
+                            window_size=[1.0, 0.5, 0.2][v])
+
+    class Feedback(Entity):
+        def __init__(self):
+            super().__init__("feedback")
+            self.in_flight = 0
+
+        def handle_event(self, event):
+            self.in_flight += 1
+            overloaded = self.in_flight > [3, 6, 2][v]
+            yield 0.02 * self.in_flight
+            self.in_flight -= 1
+            if overloaded:
+                policy.record_failure(self.now, RateAdjustmentReason.TIMEOUT if self.in_flight % 2 else
+                                      RateAdjustmentReason.FAILURE)
+                return None
+            policy.record_success(self.now)
+            return [self.forward(event, sink)]
+
+    backend = Feedback()
+    limiter = RateLimitedEntity("limiter", downstream=backend, policy=policy, queue_capacity=100)
+    null = NullRateLimiter("null_limiter", downstream=backend)
+    src = req_source("src", limiter, [80, 120, 60][v], poisson=True, stop_after=5.0)
+    src2 = req_source("src_null", null, [5, 10, 20][v], poisson=False, stop_after=5.0)
+    sim = Simulation(sources=[src, src2], entities=[limiter, null, backend, sink], duration=7.0)
+
+    def stats():
+        return {"limiter": _clean(limiter.stats), "null": pub(null), "policy": pub(policy),
+                "history": [[s.time.nanoseconds, s.rate, s.reason.name] for s in policy.rate_history[:60]],
+                "sink": sink_stats(sink)}
+
+    return sim, stats
+
+
+@scenario
+def ratelimit_distributed(seed, variant):
+    """Several DistributedRateLimiter instances sharing a KVStore with non-zero latency."""
+    from happysimulator.components.datastore import KVStore
+    from happysimulator.components.rate_limiter import DistributedRateLimiter
+
+    _seed(seed)
+    v = variant % 3
+    sink = Sink("sink")
+    store = KVStore("store", read_latency=[0.001, 0.01, 0.0][v], write_latency=[0.002, 0.02, 0.001][v])
+    limiters = [DistributedRateLimiter(f"limiter{i}", downstream=sink, backing_store=store,
+                                       global_limit=[20, 50, 10][v], window_size=[1.0, 0.5, 0.25][v],
+                                       local_threshold=[0.8, 0.5, 1.0][v]) for i in range([2, 3, 4][v])]
+    srcs = [req_source(f"src{i}", lim, [30, 40, 25][v], poisson=(i % 2 == 0), stop_after=4.0)
+            for i, lim in enumerate(limiters)]
+    sim = Simulation(sources=srcs, entities=[store, sink, *limiters], duration=5.0)
+
+    def stats():
+        return {"limiters": [pub(lim) for lim in limiters], "store": pub(store), "keys": sorted(store.keys()),
+                "sink": sink_stats(sink)}
+
+    return sim, stats
+
+
+@scenario
+def ratelimit_inductor(seed, variant):
+    """Inductor smoothing a bursty/spiky arrival stream into a slow server."""
+    from happysimulator import Inductor
+
+    _seed(seed)
+    v = variant % 3
+    sink = Sink("sink")
+    server = DelayServer("server", delay=0.01, downstream=sink)
+    inductor = Inductor("inductor", downstream=server, time_constant=[0.5, 2.0, 0.1][v],
+                        queue_capacity=[10000, 50, 500][v])
+    base = req_source("base", inductor, [20, 10, 50][v], poisson=True, stop_after=6.0)
+
+    def burst_fn(time, n):
+        # 10-event bursts every tick
+        return [Event(time=time, event_type="Burst", target=inductor, context={"created_at": time, "request_id": n * 100 + k})
+                for k in range([10, 25, 5][v])]
+
+    bursts = make_source("bursts", burst_fn, [1.0, 0.5, 4.0][v], stop_after=5.0)
+    sim = Simulation(sources=[base, bursts], entities=[inductor, server, sink], duration=8.0)
+
+    def stats():
+        return {"inductor": pub(inductor), "sink": sink_stats(sink), "server": pub(server)}
+
+    return sim, stats
+
+
+# ---------------------------------------------------------------------------
+# network
+# ---------------------------------------------------------------------------
+
+class PingNode(Entity):
+    """Node that pings peers through a Network on every Tick and answers pings with pongs."""
+
+    def __init__(self, name, network, payload_size=0):
+        super().__init__(name)
+        self.network = network
+        self.peers: list[Entity] = []
+        self.payload_size = payload_size
+        self.sent = 0
+        self.pings = 0
+        self.pongs = 0
+        self.rtts: list[float] = []
+        self._next = 0
+
+    def handle_event(self, event):
+        et = event.event_type
+        md = event.context.get("metadata", {})
+        if et == "Tick":
+            peer = self.peers[self._next % len(self.peers)]
+            self._next += 1
+            self.sent += 1
+            return [self.network.send(self, peer, "Ping", payload={"sent_at_ns": self.now.nanoseconds,
+                                                                   "payload_size": self.payload_size})]
+        if et == "Ping":
+            self.pings += 1
+            src = md.get("source")
+            peer = next(p for p in self.peers if p.name == src)
+            return [self.network.send(self, peer, "Pong", payload={"sent_at_ns": md.get("sent_at_ns"),
+                                                                   "payload_size": 64})]
+        if et == "Pong":
+            self.pongs += 1
+            self.rtts.append((self.now.nanoseconds - md.get("sent_at_ns", 0)) / 1e9)
+        return None
+
+
+@scenario
+def network_topology_partitions(seed, variant):
+    """Nodes pinging each other over a Network with mixed link conditions, partitions and heals."""
+    from happysimulator import (Network, cross_region_network, datacenter_network, internet_network, local_network,
+                                lossy_network, mobile_3g_network, satellite_network, slow_network)
+
+    _seed(seed)
+    v = variant % 3
+    net = Network(name="net", default_link=None if v == 0 else internet_network("default_link"))
+    nodes = [PingNode(f"node{i}", net, payload_size=[200, 1500, 20000][v]) for i in range(4)]
+    for n in nodes:
+        n.peers = [p for p in nodes if p is not n]
+    mk = [
+        [datacenter_network, local_network, lambda name: lossy_network(0.1, name=name), cross_region_network,
+         datacenter_network, datacenter_network],
+        [cross_region_network, lambda name: lossy_network(0.3, name=name, base_latency=0.03), internet_network,
+         mobile_3g_network, datacenter_network, local_network],
+        [lambda name: slow_network(0.2, name=name, bandwidth_bps=500_000), satellite_network, datacenter_network,
+         lambda name: lossy_network(0.05, name=name), internet_network, cross_region_network],
+    ][v]
+    k = 0
+    for i in range(4):
+        for j in range(i + 1, 4):
+            if v == 1 and (i, j) == (2, 3):
+                k += 1
+                continue  # falls back to the default link
+            net.add_bidirectional_link(nodes[i], nodes[j], mk[k](f"link_{i}_{j}"))
+            k += 1
+    srcs = [Source.constant(rate=[10, 20, 5][v] + i, target=n, event_type="Tick", name=f"tick{i}", stop_after=5.0)
+            for i, n in enumerate(nodes)]
+    sim = Simulation(sources=srcs, entities=[net, *nodes], duration=8.0)
+    handles = {}
+    sim.schedule(Event.once(time=T(1.0), event_type="Partition",
+                            fn=lambda e: handles.__setitem__("p1", net.partition(nodes[:2], nodes[2:]))))
+    sim.schedule(Event.once(time=T(2.0), event_type="AsymPartition",
+                            fn=lambda e: handles.__setitem__("p2", net.partition([nodes[0]], [nodes[1]], asymmetric=True))))
+    sim.schedule(Event.once(time=T(2.5), event_type="Heal1", fn=lambda e: handles["p1"].heal()))
+    sim.schedule(Event.once(time=T(3.5), event_type="HealAll", fn=lambda e: net.heal_partition()))
+
+    def stats():
+        return {"net": {"routed": net.events_routed, "no_route": net.events_dropped_no_route,
+                        "partition_drops": net.events_dropped_partition},
+                "traffic": [_clean(t) for t in net.traffic_matrix()],
+                "nodes": [{"sent": n.sent, "pings": n.pings, "pongs": n.pongs,
+                           "rtt_sum": sum(n.rtts), "rtt_max": max(n.rtts) if n.rtts else 0.0} for n in nodes]}
+
+    return sim, stats
+
+
+@scenario
+def network_links_direct(seed, variant):
+    """Sources pushing sized packets straight through NetworkLinks (latency, jitter, bandwidth, loss)."""
+    from happysimulator import NetworkLink, mobile_4g_network, satellite_network
+
+    _seed(seed)
+    v = variant % 3
+    sink = Sink("sink")
+    links = [
+        NetworkLink(name="link_a", latency=ConstantLatency([0.01, 0.05, 0.002][v]), bandwidth_bps=[1e6, 2e5, None][v],
+                    packet_loss_rate=[0.0, 0.1, 0.5][v], jitter=[None, ExponentialLatency(0.01), ConstantLatency(0.001)][v],
+                    egress=sink),
+        [mobile_4g_network("link_b"), satellite_network("link_b"), mobile_4g_network("link_b")][v],
+    ]
+    links[1].egress = sink
+    # second hop: link_c feeds link_a
+    link_c = NetworkLink(name="link_c", latency=ExponentialLatency(0.02), egress=links[0])
+    srcs = []
+    for i, target in enumerate([links[0], links[1], link_c]):
+        srcs.append(req_source(f"src{i}", target, [80, 40, 120][v], poisson=(i != 0), stop_after=3.0,
+                               ctx=lambda t, n, i=i: {"metadata": {"payload_size": 100 * (1 + (n + i) % 15)}}))
+    sim = Simulation(sources=srcs, entities=[sink, link_c, *links], duration=6.0)
+
+    def stats():
+        return {"sink": sink_stats(sink), "links": [_clean(l.link_stats) for l in [*links, link_c]],
+                "util": [l.current_utilization for l in links]}
+
+    return sim, stats
+
+
+# ---------------------------------------------------------------------------
+# messaging
+# ---------------------------------------------------------------------------
+
+@scenario
+def messaging_queue_ack_dlq(seed, variant):
+    """MessageQueue with competing consumers: ack / reject / silent failure, redelivery and DLQ."""
+    from happysimulator.components.messaging import DeadLetterQueue, MessageQueue
+
+    _seed(seed)
+    v = variant % 3
+    rng = random.Random(seed * 7 + v)
+    dlq = DeadLetterQueue("dlq", capacity=[None, 5, 50][v], retention_period=[None, 2.0, None][v])
+    mq = MessageQueue("mq", delivery_latency=[0.001, 0.02, 0.005][v], redelivery_delay=[0.2, 0.5, 0.1][v],
+                      max_redeliveries=[3, 2, 1][v], capacity=[None, 40, None][v], dead_letter_queue=dlq)
+    publish_errors = Counter("publish_errors")
+
+    class Producer(Entity):
+        def __init__(self, name):
+            super().__init__(name)
+            self.published = 0
+
+        def handle_event(self, event):
+            try:
+                yield from mq.publish(event)
+            except RuntimeError:
+                return [Event(time=self.now, event_type="QueueFull", target=publish_errors)]
+            self.published += 1
+            return [Event(time=self.now, event_type="poll", target=mq)]
+
+    class Consumer(Entity):
+        def __init__(self, name, work):
+            super().__init__(name)
+            self.work = work
+            self.acked = self.rejected = self.ignored = 0
+            self.delivery_counts: dict[int, int] = {}
+
+        def handle_event(self, event):
+            mid = event.context["message_id"]
+            dc = event.context["delivery_count"]
+            self.delivery_counts[dc] = self.delivery_counts.get(dc, 0) + 1
+            yield self.work
+            r = rng.random()
+            out = [Event(time=self.now, event_type="poll", target=mq)]
+            if r < [0.7, 0.5, 0.6][v]:
+                mq.acknowledge(mid)
+                self.acked += 1
+            elif r < [0.9, 0.8, 0.7][v]:
+                mq.reject(mid, requeue=(rng.random() < 0.8))
+                self.rejected += 1
+            else:
+                self.ignored += 1  # consumer died silently: the broker times the delivery out
+                redelivery = mq.schedule_redelivery(mid)
+                if redelivery is not None:
+                    out.append(redelivery)
+            return out
+
+    producers = [Producer(f"producer{i}") for i in range(2)]
+    consumers = [Consumer(f"consumer{i}", [0.02, 0.05, 0.01][v] * (i + 1)) for i in range([2, 3, 1][v])]
+    for c in consumers:
+        mq.subscribe(c)
+    srcs = [req_source(f"src{i}", p, [20, 30, 40][v], poisson=(i == 0), stop_after=4.0) for i, p in enumerate(producers)]
+    sim = Simulation(sources=srcs, entities=[mq, dlq, publish_errors, *producers, *consumers], duration=7.0)
+    if v == 2:
+        sim.schedule(Event.once(time=T(3.0), event_type="Reprocess", fn=lambda e: dlq.reprocess_all(mq)))
+        sim.schedule(Event.once(time=T(2.0), event_type="Unsubscribe", fn=lambda e: None))
+
+    def stats():
+        return {"mq": {"stats": _clean(mq.stats), "pending": mq.pending_count, "in_flight": mq.in_flight_count,
+                       "consumers": mq.consumer_count},
+                "dlq": {"stats": _clean(dlq.stats), "count": dlq.message_count,
+                        "delivery_counts": sorted(m.delivery_count for m in dlq.messages)},
+                "producers": [p.published for p in producers],
+                "consumers": [{"acked": c.acked, "rejected": c.rejected, "ignored": c.ignored,
+                               "delivery_counts": c.delivery_counts} for c in consumers],
+                "publish_errors": counter_stats(publish_errors)}
+
+    return sim, stats
+
+
+@scenario
+def messaging_topic_pubsub(seed, variant):
+    """Topic fan-out with subscribers joining/leaving and history replay."""
+    from happysimulator.components.messaging import Topic
+
+    _seed(seed)
+    v = variant % 3
+    topic = Topic("topic", delivery_latency=[0.001, 0.01, 0.0][v], max_subscribers=[None, 4, 3][v])
+    if v != 0:
+        topic.set_retain_messages(True, max_history=[0, 10, 100][v])
+    subs = [Counter(f"sub{i}") for i in range(4)]
+    slow = DelayServer("slow_sub", delay=0.05)
+    for s in subs[:2]:
+        topic.subscribe(s)
+    topic.subscribe(slow)
+
+    class Publisher(Entity):
+        def __init__(self, name, sync):
+            super().__init__(name)
+            self.sync = sync
+            self.published = 0
+
+        def handle_event(self, event):
+            self.published += 1
+            if self.sync:
+                return topic.publish_sync(event)
+            return [Event(time=self.now, event_type="publish", target=topic, context={"payload": event})]
+
+    pubs = [Publisher("pub_async", False), Publisher("pub_sync", True)]
+    srcs = [req_source(f"src{i}", p, [30, 50, 80][v], poisson=(i == 0), stop_after=4.0) for i, p in enumerate(pubs)]
+    sim = Simulation(sources=srcs, entities=[topic, slow, *subs, *pubs], duration=5.0)
+    errors: list[str] = []
+
+    def late_join(e):
+        try:
+            return topic.subscribe(subs[2], replay_history=True)
+        except RuntimeError as exc:
+            errors.append(str(exc))
+            return None
+
+    def join4(e):
+        try:
+            return topic.subscribe(subs[3], replay_history=False)
+        except RuntimeError as exc:
+            errors.append(str(exc))
+            return None
+
+    sim.schedule(Event.once(time=T(1.0), event_type="LateJoin", fn=late_join))
+    sim.schedule(Event.once(time=T(1.5), event_type="Leave", fn=lambda e: topic.unsubscribe(subs[0])))
+    sim.schedule(Event.once(time=T(2.0), event_type="Join4", fn=join4))
+
+    def rejoin(e):
+        try:
+            return topic.subscribe(subs[0])
+        except RuntimeError as exc:
+            errors.append(str(exc))
+            return None
+
+    sim.schedule(Event.once(time=T(3.0), event_type="Rejoin", fn=rejoin))
+
+    def stats():
+        return {"topic": {"stats": _clean(topic.stats), "subscribers": [s.name for s in topic.subscribers]},
+                "subs": [counter_stats(s) for s in subs], "slow": pub(slow), "pubs": [p.published for p in pubs],
+                "errors": errors}
+
+    return sim, stats
+
+
+# ---------------------------------------------------------------------------
+# streaming
+# ---------------------------------------------------------------------------
+
+@scenario
+def streaming_eventlog_consumer_group(seed, variant):
+    """Producers appending to a partitioned EventLog; a ConsumerGroup with members joining and leaving."""
+    from happysimulator import (ConsumerGroup, EventLog, RangeAssignment, RoundRobinAssignment, SizeRetention,
+                                StickyAssignment, TimeRetention)
+
+    _seed(seed)
+    v = variant % 3
+    log = EventLog("log", num_partitions=[4, 3, 6][v],
+                   retention_policy=[None, SizeRetention(max_records=30), TimeRetention(max_age_s=1.0)][v],
+                   append_latency=[0.001, 0.01, 0.002][v], read_latency=[0.0005, 0.005, 0.001][v],
+                   retention_check_interval=[60.0, 0.5, 0.3][v])
+    group = ConsumerGroup("group", event_log=log,
+                          assignment_strategy=[RangeAssignment(), RoundRobinAssignment(), StickyAssignment()][v],
+                          rebalance_delay=[0.1, 0.3, 0.05][v], poll_latency=[0.001, 0.01, 0.002][v])
+
+    def produce(self, event):
+        n = event.context["request_id"]
+        rec = yield from log.append(f"key-{n % 11}", {"n": n, "who": self.name})
+        self.log.append(rec.partition)
+        return None
+
+    producers = [Script(f"producer{i}", produce) for i in range(2)]
+
+    def consume(self, event):
+        start_at, leave_at = event.context["start_at"], event.context["leave_at"]
+        yield start_at
+        assigned = yield from group.join(self.name, self)
+        self.log.append(["joined", list(assigned)])
+        consumed = 0
+        while self.now.to_seconds() < leave_at:
+            records = yield from group.poll(self.name, max_records=[10, 5, 50][v])
+            if records:
+                offsets = {}
+                for r in records:
+                    offsets[r.partition] = max(offsets.get(r.partition, 0), r.offset + 1)
+                consumed += len(records)
+                yield [0.002, 0.01, 0.001][v] * len(records)
+                yield from group.commit(self.name, offsets)
+            else:
+                yield [0.05, 0.1, 0.02][v]
+        yield from group.leave(self.name)
+        self.log.append(["left", consumed])
+        return None
+
+    consumers = [Script(f"consumer{i}", consume) for i in range(3)]
+    srcs = [req_source(f"src{i}", p, [40, 25, 45][v], poisson=(i == 0), stop_after=4.0) for i, p in enumerate(producers)]
+    sim = Simulation(sources=srcs, entities=[log, group, *producers, *consumers], duration=6.0)
+    for i, c in enumerate(consumers):
+        sim.schedule(start(c, 0.0, start_at=[0.0, 0.5, 1.5][i], leave_at=[5.0, 3.0, 4.0][i]))
+
+    def stats():
+        return {"log": {"stats": _clean(log.stats), "hw": log.high_watermarks(), "total": log.total_records},
+                "group": {"stats": _clean(group.stats), "assignments": group.assignments,
+                          "generation": group.generation, "lag": group.total_lag()},
+                "consumers": [script_stats(c) for c in consumers],
+                "producers": [{"runs": p.runs, "done": p.done, "parts": sorted(p.log)[:50]} for p in producers]}
+
+    return sim, stats
+
+
+@scenario
+def streaming_stream_processor(seed, variant):
+    """StreamProcessor with tumbling / sliding / session windows and out-of-order (late) events."""
+    from happysimulator import LateEventPolicy, SessionWindow, SlidingWindow, StreamProcessor, TumblingWindow
+
+    _seed(seed)
+    v = variant % 3
+    rng = random.Random(seed + 17 * v)
+    results: list = []
+
+    class Collector(Entity):
+        def handle_event(self, event):
+            c = event.context
+            results.append([self.now.nanoseconds, event.event_type, c.get("key"), _clean(c.get("result", c.get("value"))),
+                            c.get("window_start"), c.get("window_end")])
+
+    out = Collector("window_out")
+    late = Counter("late_out")
+    proc = StreamProcessor("processor",
+                           window_type=[TumblingWindow(0.5), SlidingWindow(1.0, 0.25), SessionWindow(0.3)][v],
+                           aggregate_fn=[sum, len, (lambda xs: max(xs) if xs else None)][v], downstream=out,
+                           allowed_lateness_s=[0.0, 0.2, 0.1][v],
+                           late_event_policy=[LateEventPolicy.DROP, LateEventPolicy.UPDATE, LateEventPolicy.SIDE_OUTPUT][v],
+                           side_output=late, watermark_interval_s=[0.25, 0.1, 0.5][v])
+
+    def fn(time, n):
+        # event time lags processing time by a random delay; some events are very late
+        lag = rng.random() * [0.3, 0.6, 0.2][v] + (1.5 if n % 17 == 0 else 0.0)
+        et = max(0.0, time.to_seconds() - lag)
+        return [Event(time=time, event_type="Process", target=proc,
+                      context={"key": f"k{n % 3}", "value": n % 10, "event_time_s": et})]
+
+    src = make_source("src", fn, [40, 80, 20][v], poisson=True, stop_after=5.0)
+    sim = Simulation(sources=[src], entities=[proc, out, late], duration=8.0)
+
+    def stats():
+        return {"processor": pub(proc), "late": counter_stats(late), "n_results": len(results), "results": results[:100]}
+
+    return sim, stats
+
+
+# ---------------------------------------------------------------------------
+# microservice patterns
+# ---------------------------------------------------------------------------
+
+@scenario
+def microservice_outbox_relay(seed, variant):
+    """Services writing to an OutboxRelay inside their handlers; relay polls in batches."""
+    from happysimulator import OutboxRelay
+
+    _seed(seed)
+    v = variant % 3
+    sink = Sink("broker")
+    consumer = DelayServer("consumer", delay=[0.005, 0.02, 0.001][v], downstream=sink)
+    outbox = OutboxRelay("outbox", downstream=consumer, poll_interval=[0.1, 0.5, 0.05][v], batch_size=[100, 5, 20][v],
+                         relay_latency=[0.001, 0.01, 0.0][v])
+
+    class Service(Entity):
+        def __init__(self, name):
+            super().__init__(name)
+            self.ids: list[int] = []
+
+        def handle_event(self, event):
+            yield [0.002, 0.01, 0.001][v]  # business transaction
+            self.ids.append(outbox.write({"order": event.context["request_id"], "svc": self.name}))
+            return [Event(time=self.now, event_type="Wake", target=outbox)]
+
+    services = [Service(f"service{i}") for i in range(2)]
+    srcs = [req_source(f"src{i}", s, [25, 30, 50][v], poisson=(i == 0), stop_after=4.0) for i, s in enumerate(services)]
+    sim = Simulation(sources=srcs, entities=[outbox, consumer, sink, *services], duration=7.0)
+    if v == 1:
+        sim.schedule(outbox.prime_poll())
+
+    def stats():
+        return {"outbox": pub(outbox), "sink": sink_stats(sink), "consumer": pub(consumer),
+                "ids": [len(s.ids) for s in services], "last_ids": [s.ids[-3:] for s in services]}
+
+    return sim, stats
+
+
+@scenario
+def microservice_idempotency_store(seed, variant):
+    """Retrying clients sending duplicate keys through an IdempotencyStore (TTL expiry, eviction)."""
+    from happysimulator import IdempotencyStore
+
+    _seed(seed)
+    v = variant % 3
+    rng = random.Random(seed * 3 + v)
+    backend = Backend("backend", base=[0.02, 0.1, 0.005][v], per_inflight=0.002)
+    store = IdempotencyStore("idem", target=backend,
+                             key_extractor=lambda e: e.context.get("metadata", {}).get("idem_key"),
+                             ttl=[1.0, 0.5, 10.0][v], max_entries=[1000, 10, 50][v],
+                             cleanup_interval=[0.5, 0.2, 5.0][v])
+
+    def fn(time, n):
+        # each logical request is sent 1-3 times (client retries), some without a key
+        key = None if n % 13 == 0 else f"op-{n // 3 if v != 2 else rng.randrange(30)}"
+        return [Event(time=time, event_type="Charge", target=store,
+                      context={"created_at": time, "metadata": {"idem_key": key, "n": n}})]
+
+    srcs = [make_source(f"src{i}", fn, [60, 40, 150][v], poisson=(i == 0), stop_after=4.0) for i in range(2)]
+    sim = Simulation(sources=srcs, entities=[store, backend], duration=6.0)
+
+    def stats():
+        return {"store": pub(store), "backend": pub(backend)}
+
+    return sim, stats
+
+
+@scenario
+def microservice_saga(seed, variant):
+    """Saga orchestrator over three services with step timeouts and compensations, concurrent instances."""
+    from happysimulator import Saga, SagaStep
+
+    _seed(seed)
+    v = variant % 3
+    services = [Backend(f"svc_{n}", base=b, per_inflight=p, outage=o, outage_delay=0.5)
+                for n, b, p, o in [("order", 0.01, 0.002, None),
+                                   ("payment", [0.03, 0.05, 0.02][v], [0.01, 0.02, 0.0][v], [(1.0, 1.5), None, (2.0, 3.0)][v]),
+                                   ("shipping", 0.02, 0.005, [None, (2.0, 2.5), (0.5, 0.8)][v])]]
+    steps = [SagaStep(name=s.name, action_target=s, action_event_type=f"do_{s.name}", compensation_target=s,
+                      compensation_event_type=f"undo_{s.name}", timeout=[0.1, 0.15, None][v] if i else 0.2)
+             for i, s in enumerate(services)]
+    finished: list = []
+    saga = Saga("saga", steps=steps,
+                on_complete=lambda sid, state, results: finished.append([sid, state.name, [r.success for r in results]]))
+    srcs = [req_source(f"src{i}", saga, [15, 25, 40][v], poisson=(i == 0), stop_after=4.0,
+                       ctx=lambda t, n: {"payload": {"order": n}}) for i in range(2)]
+    sim = Simulation(sources=srcs, entities=[saga, *services], duration=6.0)
+
+    def stats():
+        return {"saga": pub(saga), "services": [pub(s) for s in services], "finished": finished[:120],
+                "n_finished": len(finished)}
+
+    return sim, stats
+
+
+@scenario
+def microservice_sidecar_gateway(seed, variant):
+    """APIGateway (auth, per-route rate limits, timeouts) routing to services behind Sidecars."""
+    from happysimulator import APIGateway, RouteConfig, Sidecar, TokenBucketPolicy
+    from happysimulator.components.rate_limiter import FixedWindowPolicy, LeakyBucketPolicy
+
+    _seed(seed)
+    v = variant % 3
+    svc_a = [Backend(f"users{i}", base=0.01 + 0.01 * i, per_inflight=0.003, outage=(1.0, 2.0) if i == 0 else None,
+                     outage_delay=[0.3, 0.6, 0.15][v]) for i in range(2)]
+    svc_b = Backend("orders", base=[0.03, 0.05, 0.02][v], per_inflight=0.01)
+    sidecars = [Sidecar(f"sidecar_{b.name}", target=b,
+                        rate_limit_policy=[None, TokenBucketPolicy(capacity=5, refill_rate=40.0),
+                                           LeakyBucketPolicy(leak_rate=50.0)][v],
+                        rate_limit_queue_capacity=[1000, 10, 50][v], circuit_failure_threshold=[3, 5, 2][v],
+                        circuit_success_threshold=2, circuit_timeout=[0.5, 1.0, 0.3][v],
+                        request_timeout=[0.1, 0.2, 0.08][v], max_retries=[2, 0, 3][v], retry_base_delay=[0.02, 0.1, 0.01][v])
+                for b in [*svc_a, svc_b]]
+    gw = APIGateway("gateway", routes={
+        "/users": RouteConfig(name="users", backends=sidecars[:2], auth_required=True, timeout=[0.3, None, 0.2][v],
+                              rate_limit_policy=[None, FixedWindowPolicy(requests_per_window=20, window_size=0.5), None][v]),
+        "/orders": RouteConfig(name="orders", backends=[sidecars[2]], auth_required=(v == 1),
+                               rate_limit_policy=TokenBucketPolicy(capacity=10, refill_rate=[30.0, 15.0, 60.0][v]),
+                               timeout=0.25),
+        "/empty": RouteConfig(name="empty", backends=[], auth_required=False),
+    }, auth_latency=[0.001, 0.01, 0.0][v], auth_failure_rate=[0.05, 0.2, 0.0][v])
+
+    def ctx(t, n):
+        return {"result": {}, "metadata": {"route": ["/users", "/orders", "/users", "/orders", "/missing", "/empty"][n % 6]}}
+
+    srcs = [req_source(f"src{i}", gw, [50, 40, 90][v], poisson=(i == 0), stop_after=4.0, ctx=ctx) for i in range(2)]
+    sim = Simulation(sources=srcs, entities=[gw, svc_b, *svc_a, *sidecars], duration=6.0)
+
+    def stats():
+        return {"gateway": pub(gw), "sidecars": [pub(s) for s in sidecars],
+                "services": [pub(s) for s in [*svc_a, svc_b]]}
+
+    return sim, stats
+
+
+# ---------------------------------------------------------------------------
+# storage engines
+# ---------------------------------------------------------------------------
+
+def _kv_workload(rng, n_keys, write_frac):
+    """Return fn(n) -> (op, key, value) drawing from rng."""
+
+    def op(n):
+        key = f"key{rng.randrange(n_keys):04d}"
+        r = rng.random()
+        if r < write_frac:
+            return "put", key, n
+        if r < write_frac + 0.05:
+            return "delete", key, None
+        if r < write_frac + 0.08:
+            return "scan", key, None
+        return "get", key, None
+
+    return op
+
+
+@scenario
+def storage_lsm_wal(seed, variant):
+    """Concurrent clients on an LSMTree with a WAL (three sync policies), compaction triggers and a crash."""
+    from happysimulator import (FIFOCompaction, LeveledCompaction, LSMTree, SizeTieredCompaction, SyncEveryWrite,
+                                SyncOnBatch, SyncPeriodic, WriteAheadLog)
+
+    _seed(seed)
+    v = variant % 3
+    rng = random.Random(seed * 11 + v)
+    wal = WriteAheadLog("wal", sync_policy=[SyncEveryWrite(), SyncOnBatch(batch_size=8), SyncPeriodic(interval_s=0.2)][v],
+                        write_latency=[0.0001, 0.001, 0.0002][v], sync_latency=[0.001, 0.005, 0.002][v])
+    lsm = LSMTree("lsm", memtable_size=[20, 10, 50][v],
+                  compaction_strategy=[SizeTieredCompaction(min_sstables=3),
+                                       LeveledCompaction(level_0_max=2, size_ratio=4, base_size_keys=20),
+                                       FIFOCompaction(max_total_sstables=5)][v],
+                  wal=wal, sstable_read_latency=[0.001, 0.004, 0.0005][v], sstable_write_latency=[0.002, 0.01, 0.001][v],
+                  max_levels=[7, 4, 3][v])
+    op = _kv_workload(rng, [60, 30, 200][v], [0.6, 0.4, 0.8][v])
+    model: dict = {}
+
+    def body(self, event):
+        kind, key, val = op(event.context["request_id"])
+        if kind == "put":
+            yield from lsm.put(key, val)
+            model[key] = val
+        elif kind == "delete":
+            yield from lsm.delete(key)
+            model.pop(key, None)
+        elif kind == "scan":
+            rows = yield from lsm.scan(key, key[:-1] + "9")
+            self.log.append(["scan", len(rows)])
+        else:
+            got = yield from lsm.get(key)
+            if len(self.log) < 150:
+                self.log.append([key, got, model.get(key)])
+        return None
+
+    clients = [Script(f"client{i}", body) for i in range(3)]
+    srcs = [req_source(f"src{i}", c, [60, 30, 90][v], poisson=(i != 2), stop_after=4.0) for i, c in enumerate(clients)]
+    compaction = Source.constant(rate=[5, 2, 10][v], target=lsm, event_type="CompactionTrigger", name="compaction_timer",
+                                 stop_after=5.0)
+    crash_report: dict = {}
+
+    def crash(e):
+        crash_report["crash"] = lsm.crash()
+        crash_report["recover"] = lsm.recover_from_crash()
+
+    sim = Simulation(sources=[*srcs, compaction], entities=[lsm, wal, *clients], duration=6.0)
+    sim.schedule(Event.once(time=T([2.5, 1.5, 3.0][v]), event_type="PowerLoss", fn=crash))
+
+    def stats():
+        final = {k: lsm.get_sync(k) for k in sorted(model)[:60]}
+        return {"lsm": _clean(lsm.stats), "levels": lsm.level_summary, "wal": {"stats": _clean(wal.stats), "size": wal.size,
+                                                                                 "synced_up_to": wal.synced_up_to},
+                "crash": crash_report, "final": final, "model": {k: model[k] for k in sorted(model)[:60]},
+                "clients": [script_stats(c) for c in clients]}
+
+    return sim, stats
+
+
+@scenario
+def storage_btree(seed, variant):
+    _seed(seed)
+    from happysimulator import BTree
+
+    v = variant % 3
+    rng = random.Random(seed * 13 + v)
+    tree = BTree("btree", order=[4, 16, 3][v], page_read_latency=[0.001, 0.005, 0.0002][v],
+                 page_write_latency=[0.002, 0.01, 0.0005][v])
+    op = _kv_workload(rng, [100, 40, 300][v], [0.5, 0.3, 0.7][v])
+    model: dict = {}
+
+    def body(self, event):
+        kind, key, val = op(event.context["request_id"])
+        if kind == "put":
+            yield from tree.put(key, val)
+            model[key] = val
+        elif kind == "delete":
+            ok = yield from tree.delete(key)
+            model.pop(key, None)
+            self.log.append(["del", key, ok]) if len(self.log) < 100 else None
+        elif kind == "scan":
+            rows = yield from tree.scan(key, key[:-1] + "9")
+            self.log.append(["scan", [k for k, _ in rows]]) if len(self.log) < 100 else None
+        else:
+            got = yield from tree.get(key)
+            self.log.append([key, got]) if len(self.log) < 100 else None
+        return None
+
+    clients = [Script(f"client{i}", body) for i in range(3)]
+    srcs = [req_source(f"src{i}", c, [50, 20, 60][v], poisson=(i != 1), stop_after=3.0) for i, c in enumerate(clients)]
+    sim = Simulation(sources=srcs, entities=[tree, *clients], duration=5.0)
+
+    def stats():
+        return {"btree": {"stats": _clean(tree.stats), "depth": tree.depth, "size": tree.size},
+                "final": {k: tree.get_sync(k) for k in sorted(model)[:80]},
+                "model_size": len(model), "clients": [script_stats(c) for c in clients]}
+
+    return sim, stats
+
+
+@scenario
+def storage_transactions(seed, variant):
+    """Concurrent read-modify-write transactions on hot keys under the three isolation levels."""
+    from happysimulator import BTree, IsolationLevel, LSMTree, TransactionManager
+
+    _seed(seed)
+    v = variant % 3
+    rng = random.Random(seed * 17 + v)
+    store = [LSMTree("store", memtable_size=50, sstable_read_latency=0.001),
+             BTree("store", order=8, page_read_latency=0.002, page_write_latency=0.004),
+             LSMTree("store", memtable_size=10, sstable_read_latency=0.0005)][v]
+    tm = TransactionManager("txm", store=store,
+                            isolation=[IsolationLevel.SNAPSHOT_ISOLATION, IsolationLevel.SERIALIZABLE,
+                                       IsolationLevel.READ_COMMITTED][v], deadlock_detection=(v != 2))
+    for k in range(5):
+        store.put_sync(f"acct{k}", 100)
+    outcome = {"commit": 0, "abort": 0, "user_abort": 0}
+
+    def body(self, event):
+        a, b = rng.sample(range(5), 2)
+        amount = rng.randrange(1, 10)
+        think = rng.random() * [0.02, 0.05, 0.005][v]
+        tx = yield from tm.begin(IsolationLevel.SERIALIZABLE if (v == 0 and event.context["request_id"] % 5 == 0) else None)
+        va = yield from tx.read(f"acct{a}")
+        vb = yield from tx.read(f"acct{b}")
+        yield think
+        if (va or 0) < amount:
+            tx.abort()
+            outcome["user_abort"] += 1
+            return None
+        yield from tx.write(f"acct{a}", (va or 0) - amount)
+        yield from tx.write(f"acct{b}", (vb or 0) + amount)
+        ok = yield from tx.commit()
+        outcome["commit" if ok else "abort"] += 1
+        return None
+
+    clients = [Script(f"client{i}", body) for i in range(4)]
+    srcs = [req_source(f"src{i}", c, [20, 10, 40][v], poisson=(i % 2 == 0), stop_after=4.0) for i, c in enumerate(clients)]
+    sim = Simulation(sources=srcs, entities=[store, tm, *clients], duration=6.0)
+
+    def stats():
+        bal = {f"acct{k}": store.get_sync(f"acct{k}") for k in range(5)}
+        return {"txm": {"stats": _clean(tm.stats), "active": tm.active_transactions}, "outcome": outcome,
+                "balances": bal, "total": sum(x or 0 for x in bal.values()),
+                "clients": [{"runs": c.runs, "done": c.done, "errors": c.errors[:5]} for c in clients]}
+
+    return sim, stats
+
+
+# ---------------------------------------------------------------------------
+# datastore
+# ---------------------------------------------------------------------------
+
+def _store_client_body(store, keys, rng, write_frac, model, *, delete_frac=0.05, log_limit=80):
+    """Generator body for a Script: one get / put / delete on `store` per request."""
+
+    def body(self, event):
+        n = event.context["request_id"]
+        key = keys.sample()
+        r = rng.random()
+        if r < write_frac:
+            yield from store.put(key, n)
+            model[key] = n
+        elif r < write_frac + delete_frac and hasattr(store, "delete"):
+            yield from store.delete(key)
+            model.pop(key, None)
+        else:
+            got = yield from store.get(key)
+            if len(self.log) < log_limit:
+                self.log.append([key, got])
+        return None
+
+    return body
+
+
+@scenario
+def datastore_kv_database(seed, variant):
+    """KVStore with capacity (eviction) and a Database with few connections and transactions."""
+    from happysimulator import UniformDistribution, ZipfDistribution
+    from happysimulator.components.datastore import Database, KVStore
+
+    _seed(seed)
+    v = variant % 3
+    rng = random.Random(seed * 19 + v)
+    kv = KVStore("kv", read_latency=[0.001, 0.01, 0.0005][v], write_latency=[0.005, 0.02, 0.001][v],
+                 delete_latency=[None, 0.001, 0.01][v], capacity=[None, 10, 40][v])
+    db = Database("db", max_connections=[3, 1, 5][v],
+                  query_latency=[0.005, (lambda q: 0.03 if q.startswith("SELECT") else 0.01), 0.002][v],
+                  connection_latency=[0.01, 0.002, 0.001][v], commit_latency=[0.01, 0.02, 0.001][v],
+                  rollback_latency=0.005)
+    db.create_table("orders")
+    keys = [ZipfDistribution([f"k{i:03d}" for i in range(50)], s=1.1, seed=seed),
+            UniformDistribution([f"k{i:03d}" for i in range(30)], seed=seed),
+            ZipfDistribution([f"k{i:03d}" for i in range(200)], s=0.7, seed=seed)][v]
+    model: dict = {}
+    kv_clients = [Script(f"kv_client{i}", _store_client_body(kv, keys, rng, [0.5, 0.3, 0.7][v], model)) for i in range(2)]
+
+    def db_body(self, event):
+        n = event.context["request_id"]
+        if n % 3 == 0:
+            tx = yield from db.begin_transaction()
+            yield from tx.execute("SELECT * FROM orders")
+            yield from tx.execute(f"INSERT INTO orders VALUES ({n})")
+            if n % 9 == 0:
+                yield from tx.rollback()
+            else:
+                yield from tx.commit()
+        else:
+            res = yield from db.execute("SELECT 1" if n % 2 else f"UPDATE orders SET x={n}")
+            if len(self.log) < 30:
+                self.log.append(res)
+        return None
+
+    db_clients = [Script(f"db_client{i}", db_body) for i in range(3)]
+    srcs = [req_source(f"src_kv{i}", c, [60, 30, 100][v], poisson=(i == 0), stop_after=3.0) for i, c in enumerate(kv_clients)]
+    srcs += [req_source(f"src_db{i}", c, [25, 8, 40][v], poisson=(i != 0), stop_after=3.0) for i, c in enumerate(db_clients)]
+    sim = Simulation(sources=srcs, entities=[kv, db, *kv_clients, *db_clients], duration=6.0)
+
+    def stats():
+        return {"kv": {"stats": _clean(kv.stats), "size": kv.size, "keys": sorted(kv.keys())[:60]},
+                "db": pub(db), "tables": db.get_table_names(),
+                "clients": [script_stats(c) for c in [*kv_clients, *db_clients]]}
+
+    return sim, stats
+
+
+@scenario
+def datastore_cached_store_eviction(seed, variant):
+    """CachedStore over a KVStore: nine eviction policies x write-through / write-back, plus a CacheWarmer."""
+    from happysimulator import ZipfDistribution
+    from happysimulator.components.datastore import (CachedStore, CacheWarmer, ClockEviction, FIFOEviction, KVStore,
+                                                     LFUEviction, LRUEviction, RandomEviction, SampledLRUEviction,
+                                                     SLRUEviction, TTLEviction, TwoQueueEviction, WriteAround, WriteBack,
+                                                     WriteThrough)
+
+    _seed(seed)
+    v = variant % 9
+    rng = random.Random(seed * 23 + v)
+    backing = KVStore("backing", read_latency=[0.005, 0.02, 0.002][v % 3], write_latency=[0.01, 0.03, 0.004][v % 3])
+    for i in range(100):
+        backing.put_sync(f"k{i:03d}", -i)
+    holder = {}
+    policy = [LRUEviction(), LFUEviction(), TTLEviction(ttl=0.3, clock_func=lambda: holder["c"].now.to_seconds()),
+              FIFOEviction(), RandomEviction(seed=seed), SLRUEviction(protected_ratio=0.7),
+              SampledLRUEviction(sample_size=3, seed=seed), ClockEviction(), TwoQueueEviction(kin_ratio=0.3)][v]
+    write_through = (v % 2 == 0)
+    cache = CachedStore("cache", backing_store=backing, cache_capacity=[10, 5, 20][v % 3], eviction_policy=policy,
+                        cache_read_latency=[0.0001, 0.001, 0.0][v % 3], write_through=write_through)
+    holder["c"] = cache
+    keys = ZipfDistribution([f"k{i:03d}" for i in range(100)], s=[1.0, 1.4, 0.6][v % 3], seed=seed + 1)
+    warmer = CacheWarmer("warmer", cache=cache, keys_to_warm=[f"k{i:03d}" for i in range(8)],
+                         warmup_rate=[100.0, 20.0, 400.0][v % 3], warmup_latency=0.001)
+    model: dict = {}
+    clients = [Script(f"client{i}", _store_client_body(cache, keys, rng, [0.2, 0.4, 0.1][v % 3], model)) for i in range(3)]
+    # standalone write-policy objects driven alongside (bookkeeping API only)
+    wp = [WriteThrough(), WriteBack(flush_interval=0.5, max_dirty=5), WriteAround()][v % 3]
+    wp_log = {"flushes": 0, "flushed_keys": 0}
+
+    def flusher(self, event):
+        k = keys.sample()
+        wp.on_write(k, 1)
+        if wp.should_flush():
+            ks = wp.get_keys_to_flush()
+            wp_log["flushes"] += 1
+            wp_log["flushed_keys"] += len(ks)
+            wp.on_flush(ks)
+        if not write_through and event.context["request_id"] % 5 == 0:
+            n = yield from cache.flush()
+            self.log.append(n)
+        if event.context["request_id"] % 17 == 0:
+            cache.invalidate(k)
+        return None
+        yield  # pragma: no cover
+
+    flush_script = Script("flusher", flusher)
+    srcs = [req_source(f"src{i}", c, [60, 40, 120][v % 3], poisson=(i != 1), stop_after=3.0) for i, c in enumerate(clients)]
+    srcs.append(req_source("flush_timer", flush_script, 10, stop_after=3.5))
+    sim = Simulation(sources=srcs, entities=[backing, cache, warmer, flush_script, *clients], duration=5.0)
+    sim.schedule(warmer.start_warming())
+
+    def stats():
+        return {"cache": {"stats": _clean(cache.stats), "size": cache.cache_size, "hit_rate": cache.hit_rate,
+                          "cached": sorted(cache.get_cached_keys()), "dirty": sorted(cache.get_dirty_keys())},
+                "backing": {"stats": _clean(backing.stats), "size": backing.size},
+                "warmer": pub(warmer), "write_policy": {"type": type(wp).__name__, **wp_log},
+                "flusher": script_stats(flush_script),
+                "clients": [{"runs": c.runs, "done": c.done, "errors": c.errors[:3], "log": c.log[:20]} for c in clients]}
+
+    return sim, stats
+
+
+@scenario
+def datastore_multi_tier_cache(seed, variant):
+    from happysimulator import ZipfDistribution
+    from happysimulator.components.datastore import (CachedStore, KVStore, LFUEviction, LRUEviction, MultiTierCache,
+                                                     PromotionPolicy)
+
+    _seed(seed)
+    v = variant % 3
+    rng = random.Random(seed * 29 + v)
+    backing = KVStore("backing", read_latency=[0.01, 0.03, 0.005][v], write_latency=[0.02, 0.05, 0.01][v])
+    for i in range(150):
+        backing.put_sync(f"k{i:03d}", i)
+    l1 = CachedStore("l1", backing_store=backing, cache_capacity=[5, 3, 10][v], eviction_policy=LRUEviction(),
+                     cache_read_latency=0.0001)
+    l2 = CachedStore("l2", backing_store=backing, cache_capacity=[30, 10, 60][v], eviction_policy=LFUEviction(),
+                     cache_read_latency=0.001)
+    mtc = MultiTierCache("mtc", tiers=[l1, l2], backing_store=backing,
+                         promotion_policy=[PromotionPolicy.ALWAYS, PromotionPolicy.ON_SECOND_ACCESS, "never"][v])
+    keys = ZipfDistribution([f"k{i:03d}" for i in range(150)], s=[1.0, 1.3, 0.8][v], seed=seed + 2)
+    model: dict = {}
+    clients = [Script(f"client{i}", _store_client_body(mtc, keys, rng, [0.1, 0.3, 0.05][v], model)) for i in range(3)]
+    srcs = [req_source(f"src{i}", c, [60, 30, 100][v], poisson=(i == 0), stop_after=3.0) for i, c in enumerate(clients)]
+    sim = Simulation(sources=srcs, entities=[backing, l1, l2, mtc, *clients], duration=5.0)
+    sim.schedule(Event.once(time=T(2.0), event_type="InvalidateAll", fn=lambda e: mtc.invalidate_all()))
+
+    def stats():
+        return {"mtc": {"stats": _clean(mtc.stats), "hit_rate": mtc.hit_rate, "tiers": mtc.get_tier_stats()},
+                "l1": sorted(l1.get_cached_keys()), "l2": sorted(l2.get_cached_keys()),
+                "backing": _clean(backing.stats),
+                "clients": [{"runs": c.runs, "done": c.done, "errors": c.errors[:3]} for c in clients]}
+
+    return sim, stats
+
+
+@scenario
+def datastore_soft_ttl_cache(seed, variant):
+    """SoftTTLCache: fresh hits, stale hits with background refresh, hard expiry, concurrent readers."""
+    from happysimulator import ZipfDistribution
+    from happysimulator.components.datastore import KVStore, SoftTTLCache
+
+    _seed(seed)
+    v = variant % 3
+    rng = random.Random(seed * 31 + v)
+    backing = KVStore("backing", read_latency=[0.02, 0.1, 0.005][v], write_latency=0.01)
+    for i in range(40):
+        backing.put_sync(f"k{i:03d}", i)
+    cache = SoftTTLCache("softttl", backing_store=backing, soft_ttl=[0.2, 0.5, 0.05][v],
+                         hard_ttl=[1.0, 0.6, Duration.from_seconds(0.5)][v], cache_capacity=[None, 10, 25][v],
+                         cache_read_latency=[0.0001, 0.001, 0.0][v])
+    keys = ZipfDistribution([f"k{i:03d}" for i in range(40)], s=1.2, seed=seed + 3)
+    model: dict = {}
+    clients = [Script(f"client{i}", _store_client_body(cache, keys, rng, [0.05, 0.1, 0.2][v], model, delete_frac=0.0))
+               for i in range(3)]
+    srcs = [req_source(f"src{i}", c, [50, 30, 100][v], poisson=(i != 2), stop_after=4.0) for i, c in enumerate(clients)]
+    sim = Simulation(sources=srcs, entities=[backing, cache, *clients], duration=6.0)
+    sim.schedule(Event.once(time=T(2.0), event_type="Invalidate", fn=lambda e: cache.invalidate("k000")))
+
+    def stats():
+        return {"cache": {"stats": _clean(cache.stats), "size": cache.cache_size, "cached": sorted(cache.get_cached_keys())},
+                "backing": _clean(backing.stats),
+                "clients": [{"runs": c.runs, "done": c.done, "errors": c.errors[:3], "log": c.log[:15]} for c in clients]}
+
+    return sim, stats
+
+
+@scenario
+def datastore_replicated_store(seed, variant):
+    from happysimulator import UniformDistribution
+    from happysimulator.components.datastore import ConsistencyLevel, KVStore, ReplicatedStore
+
+    _seed(seed)
+    v = variant % 3
+    rng = random.Random(seed * 37 + v)
+    replicas = [KVStore(f"replica{i}", read_latency=0.002 * (i + 1) * [1, 5, 0.5][v], write_latency=0.004 * (i + 1) * [1, 5, 0.5][v])
+                for i in range([3, 5, 3][v])]
+    store = ReplicatedStore("replicated", replicas=replicas,
+                            read_consistency=[ConsistencyLevel.QUORUM, ConsistencyLevel.ONE, ConsistencyLevel.ALL][v],
+                            write_consistency=[ConsistencyLevel.QUORUM, ConsistencyLevel.ALL, ConsistencyLevel.ONE][v],
+                            read_timeout=[1.0, 0.05, 0.5][v], write_timeout=[2.0, 0.1, 0.5][v])
+    keys = UniformDistribution([f"k{i:02d}" for i in range(25)], seed=seed + 4)
+    model: dict = {}
+    clients = [Script(f"client{i}", _store_client_body(store, keys, rng, [0.5, 0.3, 0.6][v], model)) for i in range(3)]
+    srcs = [req_source(f"src{i}", c, [30, 15, 60][v], poisson=(i == 0), stop_after=3.0) for i, c in enumerate(clients)]
+    sim = Simulation(sources=srcs, entities=[store, *replicas, *clients], duration=5.0)
+
+    def stats():
+        return {"store": {"stats": _clean(store.stats), "quorum": store.quorum_size, "replica_status": store.get_replica_status()},
+                "replicas": [{"size": r.size, "stats": _clean(r.stats)} for r in replicas],
+                "divergent": sorted(k for k in model if len({r.get_sync(k) for r in replicas}) > 1),
+                "clients": [{"runs": c.runs, "done": c.done, "errors": c.errors[:3]} for c in clients]}
+
+    return sim, stats
+
+
+@scenario
+def datastore_sharded_store(seed, variant):
+    from happysimulator import ZipfDistribution
+    from happysimulator.components.datastore import ConsistentHashSharding, HashSharding, KVStore, RangeSharding, ShardedStore
+
+    _seed(seed)
+    v = variant % 3
+    rng = random.Random(seed * 41 + v)
+    shards = [KVStore(f"shard{i}", read_latency=0.002 + 0.001 * i, write_latency=0.005 + 0.002 * i,
+                      capacity=[None, 8, None][v]) for i in range([4, 3, 5][v])]
+    strategy = [HashSharding(), RangeSharding(boundaries=["k030", "k060"]),
+                ConsistentHashSharding(virtual_nodes=20, seed=seed)][v]
+    store = ShardedStore("sharded", shards=shards, sharding_strategy=strategy)
+    population = [f"k{i:03d}" for i in range(90)]
+    keys = ZipfDistribution(population, s=[0.5, 1.0, 0.9][v], seed=seed + 5)
+    model: dict = {}
+    clients = [Script(f"client{i}", _store_client_body(store, keys, rng, [0.5, 0.6, 0.4][v], model)) for i in range(2)]
+
+    def gather(self, event):
+        want = [keys.sample() for _ in range([5, 10, 3][v])]
+        got = yield from store.scatter_gather(want)
+        if len(self.log) < 30:
+            self.log.append(sorted(k for k, val in got.items() if val is not None))
+        return None
+
+    gatherer = Script("gatherer", gather)
+    srcs = [req_source(f"src{i}", c, [60, 40, 100][v], poisson=(i == 0), stop_after=3.0) for i, c in enumerate(clients)]
+    srcs.append(req_source("src_gather", gatherer, [5, 10, 20][v], stop_after=3.0))
+    sim = Simulation(sources=srcs, entities=[store, gatherer, *shards, *clients], duration=5.0)
+
+    def stats():
+        return {"store": {"stats": _clean(store.stats), "sizes": store.get_shard_sizes(), "keys": sorted(store.get_all_keys())[:100]},
+                "placement": {k: store.get_shard_for_key(k) for k in population[:30]},
+                "gatherer": script_stats(gatherer),
+                "clients": [{"runs": c.runs, "done": c.done, "errors": c.errors[:3]} for c in clients]}
+
+    return sim, stats
+
+
+# ---------------------------------------------------------------------------
+# replication
+# ---------------------------------------------------------------------------
+
+def _rw_body(write_target, read_targets, rng, n_keys, write_frac, *, timeout=None):
+    """Script body: send Write/Read with a reply_future to replication nodes and wait for the reply."""
+
+    def body(self, event):
+        n = event.context["request_id"]
+        key = f"key{rng.randrange(n_keys):02d}"
+        fut = SimFuture()
+        started = self.now
+        if rng.random() < write_frac:
+            tgt, et, md = write_target, "Write", {"key": key, "value": f"{self.name}:{n}", "reply_future": fut}
+        else:
+            tgt = read_targets[rng.randrange(len(read_targets))]
+            et, md = "Read", {"key": key, "reply_future": fut}
+        yield 0.0, [Event(time=self.now, event_type=et, target=tgt, context={"metadata": md})]
+        if timeout is None:
+            reply = yield fut
+        else:
+            timer = SimFuture()
+            yield 0.0, [Event.once(time=self.now + timeout, event_type="ClientTimeout",
+                                   fn=lambda e: timer.resolve("timeout") if not timer.is_resolved else None)]
+            idx, reply = yield any_of(fut, timer)
+            if idx == 1:
+                reply = {"status": "timeout"}
+        if len(self.log) < 60:
+            self.log.append([et, key, _clean(reply), (self.now - started).nanoseconds])
+        return None
+
+    return body
+
+
+def _store_dump(store, n_keys):
+    return {f"key{i:02d}": store.get_sync(f"key{i:02d}") for i in range(n_keys)}
+
+
+@scenario
+def replication_primary_backup(seed, variant):
+    """PrimaryNode + BackupNodes over a Network in ASYNC / SEMI_SYNC / SYNC mode, with a partition."""
+    from happysimulator import Network, cross_region_network, datacenter_network, lossy_network
+    from happysimulator.components.datastore import KVStore
+    from happysimulator.components.replication import BackupNode, PrimaryNode, ReplicationMode
+
+    _seed(seed)
+    v = variant % 3
+    rng = random.Random(seed * 43 + v)
+    net = Network(name="net")
+    pstore = KVStore("primary_store", read_latency=0.001, write_latency=[0.001, 0.005, 0.002][v])
+    bstores = [KVStore(f"backup_store{i}", read_latency=0.001, write_latency=0.002 * (i + 1)) for i in range(2)]
+    primary = PrimaryNode("primary", store=pstore, backups=[], network=net,
+                          mode=[ReplicationMode.ASYNC, ReplicationMode.SEMI_SYNC, ReplicationMode.SYNC][v])
+    backups = [BackupNode(f"backup{i}", store=bstores[i], network=net, primary=primary, serve_reads=(i == 0 or v == 2))
+               for i in range(2)]
+    primary._backups = backups  # same wiring as the library's own example
+    primary._backup_lag = {b.name: 0 for b in backups}
+    links = [[datacenter_network, cross_region_network], [datacenter_network, lambda n: lossy_network(0.05, name=n)],
+             [cross_region_network, datacenter_network]][v]
+    for b, mk in zip(backups, links):
+        net.add_bidirectional_link(primary, b, mk(f"link_{b.name}"))
+    n_keys = 12
+    clients = [Script(f"client{i}", _rw_body(primary, [primary, *backups], rng, n_keys, [0.6, 0.5, 0.4][v],
+                                             timeout=[None, 0.5, 0.3][v])) for i in range(3)]
+    srcs = [req_source(f"src{i}", c, [30, 20, 15][v], poisson=(i == 0), stop_after=4.0) for i, c in enumerate(clients)]
+    sim = Simulation(sources=srcs, entities=[net, primary, pstore, *backups, *bstores, *clients], duration=7.0)
+    handle = {}
+    sim.schedule(Event.once(time=T(1.5), event_type="Partition",
+                            fn=lambda e: handle.__setitem__("p", net.partition([primary], [backups[1]]))))
+    sim.schedule(Event.once(time=T(2.5), event_type="Heal", fn=lambda e: handle["p"].heal()))
+
+    def stats():
+        return {"primary": pub(primary), "backups": [pub(b) for b in backups],
+                "stores": {"primary": _store_dump(pstore, n_keys), "backups": [_store_dump(s, n_keys) for s in bstores]},
+                "net": {"routed": net.events_routed, "partition_drops": net.events_dropped_partition},
+                "clients": [script_stats(c) for c in clients]}
+
+    return sim, stats
+
+
+@scenario
+def replication_chain(seed, variant):
+    """Chain replication (plain and CRAQ) with reads at tail / any node and concurrent writers."""
+    from happysimulator import Network, cross_region_network, datacenter_network, local_network
+    from happysimulator.components.datastore import KVStore
+    from happysimulator.components.replication import build_chain
+
+    _seed(seed)
+    v = variant % 3
+    rng = random.Random(seed * 47 + v)
+    net = Network(name="net")
+    names = [["head", "tail"], ["head", "mid", "tail"], ["head", "mid1", "mid2", "tail"]][v]
+    nodes = build_chain(names, net, store_factory=lambda n: KVStore(n, read_latency=0.001, write_latency=[0.001, 0.004, 0.002][v]),
+                        craq_enabled=(v != 0))
+    mk = [local_network, datacenter_network, cross_region_network][v]
+    for i in range(len(nodes) - 1):
+        net.add_bidirectional_link(nodes[i], nodes[i + 1], mk(f"link_{i}_{i + 1}"))
+    if len(nodes) > 2:
+        net.add_bidirectional_link(nodes[0], nodes[-1], datacenter_network("link_head_tail"))
+        # CRAQ version queries go from any node to the tail
+        for i in range(1, len(nodes) - 1):
+            net.add_bidirectional_link(nodes[i], nodes[-1], datacenter_network(f"link_{i}_tail")) if i + 1 != len(nodes) - 1 else None
+    n_keys = 8
+    read_targets = [nodes[-1]] if v == 0 else list(nodes)
+    clients = [Script(f"client{i}", _rw_body(nodes[0] if i < 2 else nodes[-1], read_targets, rng, n_keys,
+                                             [0.5, 0.4, 0.6][v], timeout=0.5)) for i in range(3)]
+    srcs = [req_source(f"src{i}", c, [40, 25, 15][v], poisson=(i == 0), stop_after=4.0) for i, c in enumerate(clients)]
+    sim = Simulation(sources=srcs, entities=[net, *nodes, *[n.store for n in nodes], *clients], duration=7.0)
+
+    def stats():
+        return {"nodes": [{"name": n.name, "role": n.role.name, "stats": _clean(n.stats), "dirty": sorted(n.dirty_keys),
+                           "store": _store_dump(n.store, n_keys)} for n in nodes],
+                "net": {"routed": net.events_routed, "no_route": net.events_dropped_no_route},
+                "clients": [script_stats(c) for c in clients]}
+
+    return sim, stats
+
+
+@scenario
+def replication_multi_leader(seed, variant):
+    """Multi-leader replication with concurrent conflicting writes, a partition and anti-entropy repair."""
+    from happysimulator import Network, cross_region_network, datacenter_network, lossy_network
+    from happysimulator.components.datastore import KVStore
+    from happysimulator.components.replication import CustomResolver, LastWriterWins, LeaderNode, VectorClockMerge
+
+    _seed(seed)
+    v = variant % 3
+    rng = random.Random(seed * 53 + v)
+    net = Network(name="net")
+    resolver = [LastWriterWins(), VectorClockMerge(),
+                CustomResolver(lambda key, versions: max(versions, key=lambda x: (str(x.value), x.timestamp)))][v]
+    leaders = [LeaderNode(f"leader{i}", store=KVStore(f"leader_store{i}", read_latency=0.001, write_latency=0.002),
+                          network=net, conflict_resolver=resolver, anti_entropy_interval=[0.5, 0.0, 0.25][v])
+               for i in range([2, 3, 3][v])]
+    for l in leaders:
+        l.add_peers([p for p in leaders if p is not l])
+    mk = [cross_region_network, datacenter_network, lambda n: lossy_network(0.2, name=n, base_latency=0.02)][v]
+    for i in range(len(leaders)):
+        for j in range(i + 1, len(leaders)):
+            net.add_bidirectional_link(leaders[i], leaders[j], mk(f"link_{i}_{j}"))
+    n_keys = 6
+    clients = [Script(f"client{i}", _rw_body(leaders[i % len(leaders)], [leaders[i % len(leaders)]], rng, n_keys,
+                                             [0.7, 0.5, 0.8][v])) for i in range(len(leaders) + 1)]
+    srcs = [req_source(f"src{i}", c, [20, 30, 15][v], poisson=(i % 2 == 0), stop_after=3.0) for i, c in enumerate(clients)]
+    sim = Simulation(sources=srcs, entities=[net, *leaders, *[l.store for l in leaders], *clients], duration=8.0)
+    for l in leaders:
+        ev = l.get_anti_entropy_event()
+        if ev is not None:
+            sim.schedule(ev)
+    handle = {}
+    sim.schedule(Event.once(time=T(1.0), event_type="Partition",
+                            fn=lambda e: handle.__setitem__("p", net.partition([leaders[0]], leaders[1:]))))
+    sim.schedule(Event.once(time=T(2.0), event_type="Heal", fn=lambda e: handle["p"].heal()))
+
+    def stats():
+        dumps = [_store_dump(l.store, n_keys) for l in leaders]
+        return {"leaders": [{"stats": _clean(l.stats), "root": l.merkle_tree.root_hash,
+                             "versions": {k: [vv.value, vv.writer_id, vv.timestamp] for k, vv in sorted(l.versions.items())}}
+                            for l in leaders],
+                "stores": dumps, "converged": all(d == dumps[0] for d in dumps),
+                "net": {"routed": net.events_routed, "partition_drops": net.events_dropped_partition},
+                "clients": [{"runs": c.runs, "done": c.done, "errors": c.errors[:3]} for c in clients]}
+
+    return sim, stats
+
+
+# ---------------------------------------------------------------------------
+# consensus
+# ---------------------------------------------------------------------------
+
+def _mesh(net, nodes, mk):
+    for i in range(len(nodes)):
+        for j in range(i + 1, len(nodes)):
+            net.add_bidirectional_link(nodes[i], nodes[j], mk(f"link_{nodes[i].name}_{nodes[j].name}"))
+
+
+def _log_dump(log):
+    return [[e.index, e.term, _clean(e.command)] for e in log.entries_from(1)][:80]
+
+
+def _submit_script(name, nodes, results, *, leader_of):
+    """Script entity: each request submits a KV command at the current leader (if any) and awaits commit."""
+
+    def body(self, event):
+        n = event.context["request_id"]
+        leader = leader_of(nodes)
+        if leader is None:
+            self.log.append([n, "no_leader"]) if len(self.log) < 60 else None
+            return None
+        cmd = {"op": "set", "key": f"k{n % 5}", "value": f"{self.name}:{n}"} if n % 4 else \
+            {"op": "cas", "key": f"k{n % 5}", "expected": None, "value": f"{self.name}:cas{n}"}
+        fut = leader.submit(cmd)
+        kick = []
+        if hasattr(leader, "_replicate_slot"):
+            # Multi-/Flexible-Paxos only replicate a freshly assigned slot when asked to; the library's own
+            # examples trigger it exactly like this right after submit().
+            kick = leader._replicate_slot(leader.log.last_index)
+        timer = SimFuture()
+        yield 0.0, kick + [Event.once(time=self.now + 1.5, event_type="SubmitTimeout",
+                               fn=lambda e: timer.resolve("timeout") if not timer.is_resolved else None)]
+        idx, val = yield any_of(fut, timer)
+        results.append([n, leader.name, "timeout" if idx == 1 else _clean(val)])
+        return None
+
+    return Script(name, body)
+
+
+@scenario
+def consensus_raft_cluster(seed, variant):
+    """Raft cluster electing a leader, committing client commands, surviving a leader partition."""
+    from happysimulator import Network, RaftNode, cross_region_network, datacenter_network, lossy_network
+
+    _seed(seed)
+    v = variant % 3
+    net = Network(name="net")
+    nodes = [RaftNode(f"raft{i}", network=net, election_timeout_min=[0.3, 0.15, 0.5][v],
+                      election_timeout_max=[0.6, 0.3, 1.0][v], heartbeat_interval=[0.1, 0.05, 0.2][v])
+             for i in range([3, 5, 3][v])]
+    for n in nodes:
+        n.set_peers(nodes)
+    _mesh(net, nodes, [datacenter_network, lambda name: lossy_network(0.1, name=name, base_latency=0.005),
+                       cross_region_network][v])
+    results: list = []
+    leader_of = lambda ns: next((n for n in ns if n.is_leader), None)  # noqa: E731
+    clients = [_submit_script(f"client{i}", nodes, results, leader_of=leader_of) for i in range(2)]
+    srcs = [req_source(f"src{i}", c, [10, 15, 5][v], poisson=(i == 0), stop_after=6.0) for i, c in enumerate(clients)]
+    sim = Simulation(sources=srcs, entities=[net, *nodes, *clients], duration=8.0)
+    for n in nodes:
+        sim.schedule(n.start())
+    handle = {}
+
+    def isolate_leader(e):
+        l = leader_of(nodes)
+        if l is not None:
+            handle["p"] = net.partition([l], [n for n in nodes if n is not l])
+            handle["who"] = l.name
+
+    sim.schedule(Event.once(time=T(2.5), event_type="IsolateLeader", fn=isolate_leader))
+    sim.schedule(Event.once(time=T(4.5), event_type="Heal", fn=lambda e: handle["p"].heal() if "p" in handle else None))
+
+    def stats():
+        return {"nodes": [{"name": n.name, "state": n.state.name, "term": n.current_term, "leader": n.current_leader,
+                           "stats": _clean(n.stats), "log": _log_dump(n.log), "commit": n.log.commit_index,
+                           "sm": _clean(n._state_machine.data)} for n in nodes],
+                "isolated": handle.get("who"), "results": results[:100], "n_results": len(results),
+                "net": {"routed": net.events_routed, "partition_drops": net.events_dropped_partition}}
+
+    return sim, stats
+
+
+@scenario
+def consensus_paxos_single_decree(seed, variant):
+    """Single-decree Paxos with several competing proposers (duelling ballots) over a lossy/slow mesh."""
+    from happysimulator import Network, PaxosNode, cross_region_network, datacenter_network, lossy_network
+
+    _seed(seed)
+    v = variant % 3
+    net = Network(name="net")
+    nodes = [PaxosNode(f"paxos{i}", network=net, retry_delay=[0.2, 0.05, 0.5][v]) for i in range([3, 5, 5][v])]
+    for n in nodes:
+        n.set_peers(nodes)
+    _mesh(net, nodes, [datacenter_network, lambda name: lossy_network(0.15, name=name, base_latency=0.01),
+                       cross_region_network][v])
+    decided: list = []
+    sim = Simulation(entities=[net, *nodes], duration=8.0)
+    proposers = [(0, 0.0), (1, [0.0005, 0.0, 0.01][v]), (2, [0.3, 0.02, 0.05][v])]
+    if v == 2:
+        proposers += [(3, 1.0), (4, 1.0)]
+
+    def propose(i):
+        def fn(e):
+            node = nodes[i]
+            fut = node.propose(f"value-from-{node.name}")
+            fut._add_settle_callback(lambda f: decided.append([node.name, node.now.nanoseconds, _clean(f.value)]))
+            return node.start_phase1()
+        return fn
+
+    for i, at in proposers:
+        sim.schedule(Event.once(time=T(at), event_type=f"Propose{i}", fn=propose(i)))
+    # background traffic so the run is not trivially short: a late proposer after the decision
+    sim.schedule(Event.once(time=T(5.0), event_type="LatePropose", fn=propose(len(nodes) - 1)))
+    handle = {}
+    if v == 1:
+        sim.schedule(Event.once(time=T(0.01), event_type="Partition",
+                                fn=lambda e: handle.__setitem__("p", net.partition(nodes[:2], nodes[2:]))))
+        sim.schedule(Event.once(time=T(1.0), event_type="Heal", fn=lambda e: handle["p"].heal()))
+
+    def stats():
+        return {"nodes": [{"name": n.name, "decided": n.is_decided, "value": _clean(n.decided_value),
+                           "stats": _clean(n.stats)} for n in nodes],
+                "decided": decided, "distinct": sorted({str(n.decided_value) for n in nodes if n.is_decided}),
+                "net": {"routed": net.events_routed, "partition_drops": net.events_dropped_partition}}
+
+    return sim, stats
+
+
+@scenario
+def consensus_multi_paxos(seed, variant):
+    """Multi-Paxos and Flexible Paxos logs with client commands and a second node trying to take over."""
+    from happysimulator import (FlexiblePaxosNode, MultiPaxosNode, Network, cross_region_network, datacenter_network,
+                                lossy_network)
+
+    _seed(seed)
+    v = variant % 4
+    net = Network(name="net")
+    n_nodes = [3, 5, 5, 4][v]
+    if v in (0, 1):
+        nodes = [MultiPaxosNode(f"mp{i}", network=net, leader_lease_timeout=[1.0, 0.5][v], heartbeat_interval=[0.2, 0.1][v])
+                 for i in range(n_nodes)]
+        for n in nodes:
+            n.set_peers(nodes)
+    else:
+        q1, q2 = [(4, 2), (2, 3)][v - 2]
+        nodes = [FlexiblePaxosNode(f"fp{i}", network=net, peers=None, phase1_quorum=None, phase2_quorum=None,
+                                   heartbeat_interval=[0.2, 0.5][v - 2]) for i in range(n_nodes)]
+        for n in nodes:
+            n._phase1_quorum, n._phase2_quorum = q1, q2  # quorums are validated against peers in set_peers
+            n.set_peers(nodes)
+    _mesh(net, nodes, [datacenter_network, lambda name: lossy_network(0.05, name=name, base_latency=0.005),
+                       datacenter_network, cross_region_network][v])
+    results: list = []
+    leader_of = lambda ns: next((n for n in ns if n.is_leader), None)  # noqa: E731
+    clients = [_submit_script(f"client{i}", nodes, results, leader_of=leader_of) for i in range(2)]
+    srcs = [req_source(f"src{i}", c, [10, 20, 15, 5][v], poisson=(i == 0), stop_after=5.0) for i, c in enumerate(clients)]
+    sim = Simulation(sources=srcs, entities=[net, *nodes, *clients], duration=7.0)
+    sim.schedule(Event.once(time=T(0.0), event_type="Start0", fn=lambda e: nodes[0].start()))
+    sim.schedule(Event.once(time=T([2.0, 1.0, 2.5, 3.0][v]), event_type="Start1", fn=lambda e: nodes[1].start()))
+    handle = {}
+    if v in (1, 3):
+        sim.schedule(Event.once(time=T(3.0), event_type="Partition",
+                                fn=lambda e: handle.__setitem__("p", net.partition([nodes[0]], nodes[1:]))))
+        sim.schedule(Event.once(time=T(4.0), event_type="Heal", fn=lambda e: handle["p"].heal()))
+
+    def stats():
+        return {"nodes": [{"name": n.name, "is_leader": n.is_leader, "leader": n.leader, "stats": _clean(n.stats),
+                           "log": _log_dump(n.log), "commit": n.log.commit_index,
+                           "sm": _clean(n._state_machine.data)} for n in nodes],
+                "results": results[:100], "n_results": len(results),
+                "net": {"routed": net.events_routed, "partition_drops": net.events_dropped_partition}}
+
+    return sim, stats
+
+
+@scenario
+def consensus_leader_election(seed, variant):
+    """LeaderElection with Bully / Ring / Randomized strategies; the leader is isolated mid-run."""
+    from happysimulator import (BullyStrategy, LeaderElection, Network, RandomizedStrategy, RingStrategy,
+                                datacenter_network, lossy_network)
+
+    _seed(seed)
+    v = variant % 3
+    net = Network(name="net")
+    nodes = [LeaderElection(f"node{i}", network=net,
+                            strategy=[BullyStrategy(), RingStrategy(), RandomizedStrategy(ballot_range=1000)][v],
+                            election_timeout=[0.5, 0.8, 0.3][v] + 0.05 * i, heartbeat_interval=[0.1, 0.2, 0.1][v])
+             for i in range([4, 5, 3][v])]
+    for n in nodes:
+        for m in nodes:
+            n.add_member(m)
+    _mesh(net, nodes, [datacenter_network, datacenter_network, lambda name: lossy_network(0.05, name=name)][v])
+    sim = Simulation(entities=[net, *nodes], duration=8.0)
+    for n in nodes:
+        sim.schedule(n.start())
+    handle = {}
+    history: list = []
+
+    def isolate(e):
+        leaders = [n for n in nodes if n.is_leader]
+        if leaders:
+            handle["p"] = net.partition([leaders[0]], [n for n in nodes if n is not leaders[0]])
+            handle["who"] = leaders[0].name
+
+    def snapshot(e):
+        history.append([e.time.nanoseconds, [n.current_leader for n in nodes], [n.current_term for n in nodes]])
+
+    sim.schedule(Event.once(time=T(3.0), event_type="Isolate", fn=isolate))
+    sim.schedule(Event.once(time=T(6.0), event_type="Heal", fn=lambda e: handle["p"].heal() if "p" in handle else None))
+    for k in range(1, 16):
+        sim.schedule(Event.once(time=T(0.5 * k), event_type="Snapshot", fn=snapshot))
+
+    def stats():
+        return {"nodes": [{"name": n.name, "leader": n.current_leader, "term": n.current_term, "is_leader": n.is_leader,
+                           "stats": _clean(n.stats)} for n in nodes],
+                "isolated": handle.get("who"), "history": history,
+                "net": {"routed": net.events_routed, "partition_drops": net.events_dropped_partition}}
+
+    return sim, stats
+
+
+@scenario
+def consensus_distributed_lock(seed, variant):
+    """Clients contending for DistributedLock leases (fencing tokens, expiry of slow holders, waiter limits)."""
+    from happysimulator import DistributedLock
+
+    _seed(seed)
+    v = variant % 3
+    rng = random.Random(seed * 59 + v)
+    lock = DistributedLock("lockmgr", lease_duration=[0.3, 0.1, 1.0][v], max_waiters=[0, 2, 5][v])
+    fenced_writes: list = []
+    last_token = {"db": 0, "cache": 0}
+    stale = {"n": 0}
+
+    def expiry():
+        ev = getattr(lock, "_pending_expiry", None)  # the lock hands its lease-expiry event to the caller
+        if ev is not None:
+            lock._pending_expiry = None
+            return [ev]
+        return []
+
+    def body(self, event):
+        name = "db" if rng.random() < 0.7 else "cache"
+        fut = lock.acquire(name, self.name)
+        yield 0.0, expiry()
+        grant = yield fut
+        if grant is None:
+            self.log.append("rejected") if len(self.log) < 50 else None
+            return None
+        hold = [0.05, 0.02, 0.2][v] * (1 + 9 * (rng.random() < 0.15))  # some holders stall past the lease
+        yield hold
+        if grant.fencing_token < last_token[name]:
+            stale["n"] += 1
+        else:
+            last_token[name] = grant.fencing_token
+            fenced_writes.append([name, grant.fencing_token, self.name])
+        ok = lock.release(name, grant.fencing_token)
+        yield 0.0, expiry()
+        self.log.append([name, grant.fencing_token, ok]) if len(self.log) < 50 else None
+        return None
+
+    clients = [Script(f"client{i}", body) for i in range(4)]
+    srcs = [req_source(f"src{i}", c, [4, 8, 1.5][v], poisson=(i % 2 == 0), stop_after=6.0) for i, c in enumerate(clients)]
+    sim = Simulation(sources=srcs, entities=[lock, *clients], duration=9.0)
+
+    def stats():
+        return {"lock": {"stats": _clean(lock.stats), "active": lock.active_locks, "waiters": lock.total_waiters,
+                         "holders": {n: lock.get_holder(n) for n in ("db", "cache")},
+                         "tokens": {n: lock.get_fencing_token(n) for n in ("db", "cache")}},
+                "writes": fenced_writes[:100], "stale_rejected": stale["n"],
+                "clients": [script_stats(c) for c in clients]}
+
+    return sim, stats
+
+
+@scenario
+def consensus_membership_swim(seed, variant):
+    """SWIM MembershipProtocol with phi-accrual detection; nodes are partitioned away and crash."""
+    from happysimulator import MembershipProtocol, Network, PhiAccrualDetector, datacenter_network, lossy_network
+
+    _seed(seed)
+    v = variant % 3
+    net = Network(name="net")
+    nodes = [MembershipProtocol(f"member{i}", network=net, probe_interval=[0.2, 0.1, 0.3][v],
+                                suspicion_timeout=[1.0, 0.5, 1.5][v], indirect_probe_count=[2, 3, 1][v],
+                                phi_threshold=[8.0, 4.0, 12.0][v]) for i in range([5, 6, 4][v])]
+    for n in nodes:
+        for m in nodes:
+            n.add_member(m)
+    _mesh(net, nodes, [datacenter_network, lambda name: lossy_network(0.1, name=name, base_latency=0.005),
+                       datacenter_network][v])
+    # a free-standing detector fed from a jittery heartbeat stream
+    det = PhiAccrualDetector(threshold=[8.0, 3.0, 5.0][v], max_sample_size=50, min_std=0.05, initial_interval=0.1)
+    phis: list = []
+    hb_rng = random.Random(seed + 5)
+
+    def heartbeat(time, n):
+        t = time.to_seconds()
+        if not (2.0 < t < 3.0):  # heartbeats stop for a second
+            if hb_rng.random() > 0.1:
+                det.heartbeat(t)
+        phis.append([round(t, 3), det.phi(t), det.is_available(t)])
+        return None
+
+    hb = make_source("heartbeats", heartbeat, 10, stop_after=6.0)
+    sim = Simulation(sources=[hb], entities=[net, *nodes], duration=8.0)
+    for n in nodes:
+        sim.schedule(n.start())
+    handle = {}
+    sim.schedule(Event.once(time=T(2.0), event_type="Partition",
+                            fn=lambda e: handle.__setitem__("p", net.partition(nodes[:-1], nodes[-1:]))))
+    sim.schedule(Event.once(time=T([5.0, 4.0, 7.5][v]), event_type="Heal", fn=lambda e: handle["p"].heal()))
+    history: list = []
+
+    def snapshot(e):
+        history.append([e.time.nanoseconds, sorted(nodes[0].alive_members), sorted(nodes[0].suspected_members),
+                        sorted(nodes[0].dead_members)])
+
+    for k in range(1, 16):
+        sim.schedule(Event.once(time=T(0.5 * k), event_type="Snapshot", fn=snapshot))
+
+    def stats():
+        return {"nodes": [{"name": n.name, "alive": sorted(n.alive_members), "suspected": sorted(n.suspected_members),
+                           "dead": sorted(n.dead_members), "stats": _clean(n.stats)} for n in nodes],
+                "history": history, "detector": _clean(det.stats), "phis": phis[::3],
+                "net": {"routed": net.events_routed, "partition_drops": net.events_dropped_partition}}
+
+    return sim, stats
+
+
+# ---------------------------------------------------------------------------
+# CRDT store with gossip
+# ---------------------------------------------------------------------------
+
+@scenario
+def crdt_store_gossip(seed, variant):
+    """CRDTStores (GCounter / PNCounter / ORSet / LWWRegister) gossiping over a partitioned network."""
+    from happysimulator import (CRDTStore, GCounter, HybridLogicalClock, LWWRegister, Network, ORSet, PNCounter,
+                                cross_region_network, datacenter_network, lossy_network)
+
+    _seed(seed)
+    v = variant % 4
+    rng = random.Random(seed * 61 + v)
+    net = Network(name="net")
+    factory = [lambda nid: GCounter(nid), lambda nid: PNCounter(nid), lambda nid: ORSet(nid),
+               lambda nid: LWWRegister(nid)][v]
+    stores = [CRDTStore(f"crdt{i}", network=net, crdt_factory=factory, gossip_interval=[0.2, 0.5, 0.1, 0.3][v])
+              for i in range([3, 4, 3, 3][v])]
+    for s in stores:
+        s.add_peers([p for p in stores if p is not s])
+    _mesh(net, stores, [datacenter_network, cross_region_network,
+                        lambda name: lossy_network(0.2, name=name, base_latency=0.01), datacenter_network][v])
+    hlcs = {s.name: HybridLogicalClock(s.name, wall_time=(lambda s=s: s.now)) for s in stores}
+
+    def fn(time, n):
+        s = stores[rng.randrange(len(stores))]
+        key = f"key{rng.randrange(4)}"
+        if v == 0:
+            op, val = "increment", rng.randrange(1, 4)
+        elif v == 1:
+            op, val = ("increment", rng.randrange(1, 4)) if rng.random() < 0.6 else ("decrement", 1)
+        elif v == 2:
+            op, val = ("add", f"e{rng.randrange(6)}") if rng.random() < 0.7 else ("remove", f"e{rng.randrange(6)}")
+        else:
+            # LWWRegister.set needs a timestamp: apply directly, the Write event then only counts as a read-back
+            reg = s.get_or_create(key)
+            reg.set(f"{s.name}:{n}", hlcs[s.name].now())
+            return [Event(time=time, event_type="Read", target=s, context={"metadata": {"key": key}})]
+        return [Event(time=time, event_type="Write", target=s,
+                      context={"metadata": {"key": key, "value": val, "operation": op}})]
+
+    src = make_source("writes", fn, [40, 20, 60, 30][v], poisson=True, stop_after=4.0)
+    sim = Simulation(sources=[src], entities=[net, *stores], duration=8.0)
+    for s in stores:
+        ev = s.get_gossip_event()
+        if ev is not None:
+            sim.schedule(ev)
+    handle = {}
+    sim.schedule(Event.once(time=T(1.0), event_type="Partition",
+                            fn=lambda e: handle.__setitem__("p", net.partition(stores[:1], stores[1:]))))
+    sim.schedule(Event.once(time=T(3.0), event_type="Heal", fn=lambda e: handle["p"].heal()))
+
+    def stats():
+        values = [{k: _clean(c.value) for k, c in sorted(s.crdts.items())} for s in stores]
+        return {"stores": [{"stats": _clean(s.stats), "lag": s.convergence_lag} for s in stores], "values": values,
+                "converged": all(x == values[0] for x in values),
+                "net": {"routed": net.events_routed, "partition_drops": net.events_dropped_partition}}
+
+    return sim, stats
+
+
+# ---------------------------------------------------------------------------
+# sync primitives
+# ---------------------------------------------------------------------------
+
+@scenario
+def sync_mutex_semaphore(seed, variant):
+    """Workers contending for a Mutex-protected counter and a Semaphore-limited pool (hold times > 0)."""
+    from happysimulator.components.sync import Mutex, Semaphore
+
+    _seed(seed)
+    v = variant % 3
+    rng = random.Random(seed * 67 + v)
+    mutex = Mutex("mutex")
+    sem = Semaphore("semaphore", initial_count=[2, 3, 1][v])
+    shared = {"counter": 0, "in_cs": 0, "max_in_cs": 0, "in_pool": 0, "max_in_pool": 0, "try_fail": 0}
+
+    def body(self, event):
+        n = event.context["request_id"]
+        if n % 7 == 0:  # non-blocking attempt
+            if mutex.try_acquire(owner=self.name):
+                yield [0.001, 0.01, 0.002][v]
+                shared["counter"] += 1
+                return mutex.release()
+            shared["try_fail"] += 1
+            return None
+        need = 1 + (n % 2 if v == 1 else 0)
+        yield from sem.acquire(need)
+        shared["in_pool"] += need
+        shared["max_in_pool"] = max(shared["max_in_pool"], shared["in_pool"])
+        yield [0.01, 0.03, 0.005][v] * (1 + rng.random())
+        yield from mutex.acquire(owner=self.name)
+        shared["in_cs"] += 1
+        shared["max_in_cs"] = max(shared["max_in_cs"], shared["in_cs"])
+        tmp = shared["counter"]
+        yield [0.005, 0.02, 0.001][v]  # hold the lock
+        shared["counter"] = tmp + 1
+        shared["in_cs"] -= 1
+        out = mutex.release()
+        shared["in_pool"] -= need
+        out = out + sem.release(need)
+        return out
+
+    workers = [Script(f"worker{i}", body) for i in range(4)]
+    srcs = [req_source(f"src{i}", w, [20, 8, 40][v], poisson=(i % 2 == 0), stop_after=4.0) for i, w in enumerate(workers)]
+    sim = Simulation(sources=srcs, entities=[mutex, sem, *workers], duration=7.0)
+
+    def stats():
+        return {"mutex": pub(mutex), "semaphore": pub(sem), "shared": shared,
+                "workers": [{"runs": w.runs, "done": w.done, "errors": w.errors[:3]} for w in workers]}
+
+    return sim, stats
+
+
+@scenario
+def sync_rwlock(seed, variant):
+    from happysimulator.components.sync import RWLock
+
+    _seed(seed)
+    v = variant % 3
+    rng = random.Random(seed * 71 + v)
+    lock = RWLock("rwlock", max_readers=[None, 2, 4][v])
+    shared = {"readers": 0, "max_readers": 0, "writers": 0, "max_writers": 0, "violations": 0, "version": 0,
+              "try_read_fail": 0, "try_write_fail": 0}
+
+    def body(self, event):
+        n = event.context["request_id"]
+        is_write = rng.random() < [0.2, 0.5, 0.05][v]
+        if n % 11 == 0:
+            ok = lock.try_acquire_write() if is_write else lock.try_acquire_read()
+            if not ok:
+                shared["try_write_fail" if is_write else "try_read_fail"] += 1
+                return None
+        elif is_write:
+            yield from lock.acquire_write()
+        else:
+            yield from lock.acquire_read()
+        if is_write:
+            shared["writers"] += 1
+            shared["max_writers"] = max(shared["max_writers"], shared["writers"])
+            if shared["readers"] or shared["writers"] > 1:
+                shared["violations"] += 1
+            yield [0.02, 0.01, 0.05][v]
+            shared["version"] += 1
+            shared["writers"] -= 1
+            return lock.release_write()
+        shared["readers"] += 1
+        shared["max_readers"] = max(shared["max_readers"], shared["readers"])
+        if shared["writers"]:
+            shared["violations"] += 1
+        yield [0.01, 0.02, 0.005][v] * (1 + rng.random())
+        shared["readers"] -= 1
+        return lock.release_read()
+
+    workers = [Script(f"worker{i}", body) for i in range(5)]
+    srcs = [req_source(f"src{i}", w, [15, 10, 40][v], poisson=(i % 2 == 0), stop_after=4.0) for i, w in enumerate(workers)]
+    sim = Simulation(sources=srcs, entities=[lock, *workers], duration=7.0)
+
+    def stats():
+        return {"rwlock": pub(lock), "shared": shared,
+                "workers": [{"runs": w.runs, "done": w.done, "errors": w.errors[:3]} for w in workers]}
+
+    return sim, stats
+
+
+@scenario
+def sync_barrier_condition(seed, variant):
+    """Phased workers meeting at a Barrier; a bounded buffer built from Mutex + two Conditions."""
+    from happysimulator.components.sync import Barrier, Condition, Mutex
+
+    _seed(seed)
+    v = variant % 3
+    rng = random.Random(seed * 73 + v)
+    parties = [3, 4, 2][v]
+    barrier = Barrier("barrier", parties=parties)
+    mutex = Mutex("buffer_mutex")
+    not_empty = Condition("not_empty", mutex)
+    not_full = Condition("not_full", mutex)
+    cap = [2, 5, 1][v]
+    buf: deque = deque()
+    shared = {"produced": 0, "consumed": 0, "max_depth": 0, "timeouts": 0}
+
+    def phased(self, event):
+        for phase in range([6, 4, 10][v]):
+            yield [0.05, 0.1, 0.02][v] * (1 + rng.random())  # compute
+            idx = yield from barrier.wait()
+            self.log.append([phase, idx, self.now.nanoseconds])
+        return None
+
+    phase_workers = [Script(f"phase_worker{i}", phased) for i in range(parties)]
+
+    def producer(self, event):
+        yield from mutex.acquire(owner=self.name)
+        while len(buf) >= cap:
+            yield from not_full.wait()
+        yield [0.002, 0.01, 0.001][v]
+        buf.append(event.context["request_id"])
+        shared["produced"] += 1
+        shared["max_depth"] = max(shared["max_depth"], len(buf))
+        not_empty.notify()
+        return mutex.release()
+
+    def consumer(self, event):
+        yield from mutex.acquire(owner=self.name)
+        ok = yield from not_empty.wait_for(lambda: len(buf) > 0, timeout=[0.5, 0.2, 1.0][v])
+        if not ok:
+            shared["timeouts"] += 1
+            return mutex.release()
+        item = buf.popleft()
+        yield [0.004, 0.02, 0.002][v]
+        shared["consumed"] += 1
+        self.log.append(item) if len(self.log) < 50 else None
+        if v == 1:
+            not_full.notify_all()
+        else:
+            not_full.notify()
+        return mutex.release()
+
+    producers = [Script(f"producer{i}", producer) for i in range(2)]
+    consumers = [Script(f"consumer{i}", consumer) for i in range(2)]
+    srcs = [req_source(f"src_p{i}", p, [20, 10, 40][v], poisson=(i == 0), stop_after=4.0) for i, p in enumerate(producers)]
+    srcs += [req_source(f"src_c{i}", c, [18, 12, 50][v], poisson=(i == 1), stop_after=4.5) for i, c in enumerate(consumers)]
+    sim = Simulation(sources=srcs, entities=[barrier, mutex, not_empty, not_full, *phase_workers, *producers, *consumers],
+                     duration=8.0)
+    for i, w in enumerate(phase_workers):
+        sim.schedule(start(w, 0.01 * i))
+
+    def stats():
+        return {"barrier": pub(barrier), "mutex": pub(mutex), "not_empty": pub(not_empty), "not_full": pub(not_full),
+                "shared": shared, "buffer": list(buf), "phases": [script_stats(w) for w in phase_workers],
+                "producers": [{"runs": w.runs, "done": w.done, "errors": w.errors[:3]} for w in producers],
+                "consumers": [{"runs": w.runs, "done": w.done, "errors": w.errors[:3]} for w in consumers]}
+
+    return sim, stats
+
+
+# ---------------------------------------------------------------------------
+# Resource / PreemptibleResource
+# ---------------------------------------------------------------------------
+
+@scenario
+def resource_contended_capacity(seed, variant):
+    """Jobs acquiring different amounts of a shared Resource (FIFO waiters), plus try_acquire fast paths."""
+    from happysimulator import Resource
+
+    _seed(seed)
+    v = variant % 3
+    rng = random.Random(seed * 79 + v)
+    cpu = Resource("cpu", capacity=[4, 8, 2][v])
+    mem = Resource("memory", capacity=[16.0, 10.5, 4.0][v])
+    shared = {"try_fail": 0, "done": 0}
+
+    def body(self, event):
+        n = event.context["request_id"]
+        cores = 1 + n % [3, 4, 2][v]
+        if n % 9 == 0:
+            g = cpu.try_acquire(cores)
+            if g is None:
+                shared["try_fail"] += 1
+                return None
+        else:
+            g = yield cpu.acquire(cores)
+        m = yield mem.acquire([2.0, 1.5, 1.0][v] * (1 + n % 3))
+        yield [0.02, 0.05, 0.01][v] * (1 + rng.random())
+        m.release()
+        yield 0.001
+        g.release()
+        g.release()  # idempotent
+        shared["done"] += 1
+        return None
+
+    workers = [Script(f"job_runner{i}", body) for i in range(4)]
+    srcs = [req_source(f"src{i}", w, [25, 15, 50][v], poisson=(i % 2 == 0), stop_after=4.0) for i, w in enumerate(workers)]
+    sim = Simulation(sources=srcs, entities=[cpu, mem, *workers], duration=8.0)
+
+    def stats():
+        return {"cpu": pub(cpu), "memory": pub(mem), "shared": shared,
+                "workers": [{"runs": w.runs, "done": w.done, "errors": w.errors[:3]} for w in workers]}
+
+    return sim, stats
+
+
+@scenario
+def resource_preemptible(seed, variant):
+    """Low-priority batch jobs preempted by high-priority arrivals on a PreemptibleResource."""
+    from happysimulator import PreemptibleResource
+
+    _seed(seed)
+    v = variant % 3
+    res = PreemptibleResource("machines", capacity=[2, 4, 1][v])
+    shared = {"preempted": 0, "finished": {"0": 0, "1": 0, "2": 0}, "restarts": 0}
+
+    def body(self, event):
+        n = event.context["request_id"]
+        prio = [0, 1, 2, 2, 2][n % 5] if v != 2 else n % 3
+        flag = {"hit": False}
+        grant = yield res.acquire(amount=1 + (n % 2 if v == 1 else 0), priority=float(prio), preempt=(v != 2 or prio == 0),
+                                  on_preempt=lambda: flag.__setitem__("hit", True))
+        work = [0.05, 0.1, 0.02][v] * (1 + 2 * (prio == 2))
+        steps = 5
+        for _ in range(steps):
+            yield work / steps
+            if flag["hit"] or grant.preempted:
+                shared["preempted"] += 1
+                if not grant.released:
+                    grant.release()
+                return None
+        grant.release()
+        shared["finished"][str(prio)] += 1
+        return None
+
+    workers = [Script(f"operator{i}", body) for i in range(3)]
+    srcs = [req_source(f"src{i}", w, [15, 10, 30][v], poisson=(i != 1), stop_after=4.0) for i, w in enumerate(workers)]
+    sim = Simulation(sources=srcs, entities=[res, *workers], duration=8.0)
+
+    def stats():
+        return {"resource": pub(res), "shared": shared,
+                "workers": [{"runs": w.runs, "done": w.done, "errors": w.errors[:3]} for w in workers]}
+
+    return sim, stats
+
+
+# ---------------------------------------------------------------------------
+# deployment
+# ---------------------------------------------------------------------------
+
+def _server_factory(service_s, concurrency=2, exponential=False, bad_after=None):
+    """Factory of Servers for deployers/scalers; instances created after `bad_after` calls are slow."""
+    from happysimulator.components.server import Server
+
+    made: list = []
+
+    def make(name):
+        slow = bad_after is not None and len(made) >= bad_after
+        st = service_s * (8 if slow else 1)
+        srv = Server(name=name, concurrency=concurrency,
+                     service_time=ExponentialLatency(st) if exponential else ConstantLatency(st), queue_capacity=50)
+        made.append(srv)
+        return srv
+
+    make.made = made
+    return make
+
+
+@scenario
+def deployment_autoscaler(seed, variant):
+    """AutoScaler (target utilisation / step / queue depth) following a load ramp on a LoadBalancer."""
+    from happysimulator import AutoScaler, QueueDepthScaling, StepScaling, TargetUtilization
+    from happysimulator.components.load_balancer import LeastConnections, LoadBalancer, RoundRobin
+
+    _seed(seed)
+    v = variant % 3
+    factory = _server_factory([0.05, 0.08, 0.03][v], concurrency=[2, 1, 4][v], exponential=(v == 1))
+    first = factory("server_initial")
+    lb = LoadBalancer("lb", backends=[first], strategy=[RoundRobin(), LeastConnections(), RoundRobin()][v])
+    scaler = AutoScaler("scaler", load_balancer=lb, server_factory=factory,
+                        policy=[TargetUtilization(target=0.5), StepScaling(steps=[(0.9, 2), (0.6, 1), (0.2, -1)]),
+                                QueueDepthScaling(scale_out_threshold=5, scale_in_threshold=1)][v],
+                        min_instances=1, max_instances=[5, 4, 6][v], evaluation_interval=[0.5, 1.0, 0.25][v],
+                        scale_out_cooldown=[1.0, 0.5, 0.5][v], scale_in_cooldown=[2.0, 1.0, 0.75][v])
+    # (constant-rate surge instead of a LinearRampProfile: the library's numerical arrival-time search can take
+    #  minutes of wall time when a Poisson draw straddles the ramp's kink)
+    src = req_source("src", lb, [60, 35, 80][v], poisson=(v != 2), stop_after=5.0)
+    tail = req_source("tail", lb, [5, 3, 10][v], stop_after=11.0)
+    sim = Simulation(sources=[src, tail], entities=[lb, first, scaler], duration=12.0)
+    sim.schedule(scaler.start())
+
+    def stats():
+        return {"scaler": pub(scaler), "lb": _clean(lb.stats),
+                "history": [_clean(h) for h in scaler.scaling_history[:40]],
+                "servers": [{"name": s.name, "stats": _clean(s.stats), "dropped": s.stats_dropped} for s in factory.made]}
+
+    return sim, stats
+
+
+@scenario
+def deployment_rolling(seed, variant):
+    """RollingDeployer replacing backends under traffic; in one variant the new version is unhealthy/slow."""
+    from happysimulator import RollingDeployer
+    from happysimulator.components.load_balancer import LoadBalancer, RoundRobin
+
+    _seed(seed)
+    v = variant % 3
+    factory = _server_factory([0.02, 0.04, 0.01][v], concurrency=2, bad_after=[None, 4, None][v])
+    servers = [factory(f"server_v1_{i}") for i in range([3, 4, 2][v])]
+    lb = LoadBalancer("lb", backends=servers, strategy=RoundRobin())
+    deployer = RollingDeployer("deployer", load_balancer=lb, server_factory=factory, batch_size=[1, 2, 1][v],
+                               health_check_interval=[0.5, 0.25, 1.0][v], healthy_threshold=[2, 1, 3][v],
+                               max_failures=[1, 2, 1][v])
+    src = req_source("src", lb, [40, 60, 25][v], poisson=True, stop_after=8.0)
+    sim = Simulation(sources=[src], entities=[lb, deployer, *servers], duration=12.0)
+    sim.schedule(Event.once(time=T(1.0), event_type="Deploy", fn=lambda e: deployer.deploy()))
+    if v == 2:  # a new instance crashes during the rollout
+        def crash_newest(e):
+            if len(factory.made) > 2:
+                factory.made[-1]._crashed = True
+        sim.schedule(Event.once(time=T(2.2), event_type="CrashNew", fn=crash_newest))
+
+    def stats():
+        return {"deployer": pub(deployer), "state": _clean(deployer.state), "lb": _clean(lb.stats),
+                "backends": [b.name for b in lb.all_backends],
+                "servers": [{"name": s.name, "stats": _clean(s.stats)} for s in factory.made]}
+
+    return sim, stats
+
+
+@scenario
+def deployment_canary(seed, variant):
+    """CanaryDeployer shifting weighted traffic through stages with error-rate / latency evaluators."""
+    from happysimulator import CanaryDeployer, CanaryStage, ErrorRateEvaluator, LatencyEvaluator
+    from happysimulator.components.load_balancer import LoadBalancer, WeightedRoundRobin
+
+    _seed(seed)
+    v = variant % 3
+    factory = _server_factory([0.02, 0.03, 0.02][v], concurrency=[2, 2, 1][v], bad_after=[None, 3, 2][v])
+    servers = [factory(f"baseline{i}") for i in range([2, 3, 2][v])]
+    lb = LoadBalancer("lb", backends=servers, strategy=WeightedRoundRobin())
+    deployer = CanaryDeployer("canary_deployer", load_balancer=lb, server_factory=factory,
+                              stages=[CanaryStage(0.05, [1.0, 0.5, 1.0][v]), CanaryStage(0.25, [1.0, 1.0, 0.5][v]),
+                                      CanaryStage(1.0, 1.0)],
+                              metric_evaluator=[ErrorRateEvaluator(max_error_rate=0.1),
+                                                LatencyEvaluator(max_latency=0.1, threshold_multiplier=2.0),
+                                                ErrorRateEvaluator(max_error_rate=0.01, threshold_multiplier=1.5)][v],
+                              evaluation_interval=[0.5, 0.25, 0.5][v])
+    src = req_source("src", lb, [50, 40, 80][v], poisson=True, stop_after=7.0)
+    sim = Simulation(sources=[src], entities=[lb, deployer, *servers], duration=10.0)
+    sim.schedule(Event.once(time=T(0.5), event_type="Deploy", fn=lambda e: deployer.deploy()))
+
+    def stats():
+        return {"deployer": pub(deployer), "state": _clean(deployer.state), "lb": _clean(lb.stats),
+                "backends": [b.name for b in lb.all_backends],
+                "servers": [{"name": s.name, "stats": _clean(s.stats), "dropped": s.stats_dropped} for s in factory.made]}
+
+    return sim, stats
+
+
+# ---------------------------------------------------------------------------
+# infrastructure
+# ---------------------------------------------------------------------------
+
+@scenario
+def infra_disk_page_cache(seed, variant):
+    """Concurrent readers/writers on a DiskIO (HDD / SSD / NVMe) behind a small PageCache."""
+    from happysimulator import HDD, SSD, DiskIO, NVMe, PageCache, ZipfDistribution
+
+    _seed(seed)
+    v = variant % 3
+    rng = random.Random(seed * 89 + v)
+    disk = DiskIO("disk", profile=[HDD(seek_time_s=0.004, rotational_latency_s=0.002), SSD(queue_depth_factor=0.3),
+                                   NVMe(native_queue_depth=4, overflow_penalty=0.2)][v])
+    cache = PageCache("page_cache", capacity_pages=[20, 50, 8][v], readahead_pages=[0, 4, 2][v],
+                      disk_read_latency_s=[0.005, 0.0002, 0.00005][v], disk_write_latency_s=[0.008, 0.0005, 0.0001][v])
+    pages = ZipfDistribution(list(range(200)), s=[1.0, 0.8, 1.3][v], seed=seed + 7)
+
+    def body(self, event):
+        n = event.context["request_id"]
+        page = pages.sample()
+        if rng.random() < [0.3, 0.5, 0.2][v]:
+            yield from cache.write_page(page)
+            yield from disk.write(size_bytes=4096 * (1 + n % 4))
+        else:
+            yield from cache.read_page(page)
+            if n % 3 == 0:
+                yield from disk.read(size_bytes=[65536, 4096, 1 << 20][v])
+        if n % 50 == 0:
+            flushed = yield from cache.flush()
+            self.log.append(flushed)
+        return None
+
+    workers = [Script(f"io_worker{i}", body) for i in range(4)]
+    srcs = [req_source(f"src{i}", w, [30, 80, 100][v], poisson=(i % 2 == 0), stop_after=3.0) for i, w in enumerate(workers)]
+    sim = Simulation(sources=srcs, entities=[disk, cache, *workers], duration=5.0)
+
+    def stats():
+        return {"disk": {"stats": _clean(disk.stats), "queue_depth": disk.queue_depth},
+                "cache": {"stats": _clean(cache.stats), "pages": cache.pages_cached, "dirty": cache.dirty_pages},
+                "workers": [script_stats(w) for w in workers]}
+
+    return sim, stats
+
+
+@scenario
+def infra_cpu_gc(seed, variant):
+    """Tasks time-sliced by a CPUScheduler while a GarbageCollector injects periodic and inline pauses."""
+    from happysimulator import (ConcurrentGC, CPUScheduler, FairShare, GarbageCollector, GenerationalGC,
+                                PriorityPreemptive, StopTheWorld)
+
+    _seed(seed)
+    v = variant % 3
+    rng = random.Random(seed * 97 + v)
+    cpu = CPUScheduler("cpu", policy=[FairShare(quantum_s=0.005), PriorityPreemptive(quantum_s=0.01),
+                                      FairShare(quantum_s=0.02)][v], context_switch_s=[0.00001, 0.0005, 0.0001][v])
+    gc = GarbageCollector("gc", strategy=[StopTheWorld(base_pause_s=0.02, interval_s=0.5, pressure_multiplier=2.0),
+                                          ConcurrentGC(pause_s=0.002, interval_s=0.2),
+                                          GenerationalGC(minor_pause_s=0.001, major_pause_s=0.02, minor_interval_s=0.1,
+                                                         major_threshold=0.6)][v],
+                          heap_pressure=[0.5, None, 0.8][v])
+    done: list = []
+
+    def body(self, event):
+        n = event.context["request_id"]
+        started = self.now
+        yield from cpu.execute(f"{self.name}-task{n}", cpu_time_s=[0.01, 0.03, 0.005][v] * (1 + rng.randrange(3)),
+                               priority=n % 3)
+        if n % 10 == 0:
+            pause = yield from gc.pause()  # allocation-triggered collection
+            self.log.append(pause)
+        done.append((self.now - started).nanoseconds) if len(done) < 200 else None
+        return None
+
+    workers = [Script(f"app_thread{i}", body) for i in range(3)]
+    srcs = [req_source(f"src{i}", w, [6, 3, 10][v], poisson=(i != 2), stop_after=3.0) for i, w in enumerate(workers)]
+    sim = Simulation(sources=srcs, entities=[cpu, gc, *workers], duration=5.0)
+    sim.schedule(Event.once(time=T(0.0), event_type="PrimeGC", fn=lambda e: gc.prime()))
+
+    def stats():
+        return {"cpu": {"stats": _clean(cpu.stats), "ready": cpu.ready_queue_depth},
+                "gc": {"stats": _clean(gc.stats), "collections": gc.collection_count},
+                "latencies_ns": done[:100], "workers": [script_stats(w) for w in workers]}
+
+    return sim, stats
+
+
+@scenario
+def infra_dns_tcp(seed, variant):
+    """DNSResolver cache (TTL expiry, eviction, NXDOMAIN) feeding TCPConnections with loss and congestion control."""
+    from happysimulator import AIMD, BBR, Cubic, DNSRecord, DNSResolver, TCPConnection, ZipfDistribution
+
+    _seed(seed)
+    v = variant % 3
+    hosts = [f"svc{i}.example.com" for i in range(12)]
+    dns = DNSResolver("dns", cache_capacity=[100, 4, 8][v], root_latency_s=[0.02, 0.05, 0.005][v],
+                      tld_latency_s=0.015, auth_latency_s=0.01,
+                      records={h: DNSRecord(h, f"10.0.0.{i}", ttl_s=[0.5, 5.0, 0.1][v]) for i, h in enumerate(hosts[:10])})
+    conns = [TCPConnection(f"tcp{i}", congestion_control=[AIMD(), Cubic(), BBR()][(i + v) % 3],
+                           base_rtt_s=[0.02, 0.1, 0.005][v], loss_rate=[0.01, 0.05, 0.0][v], mss_bytes=1460,
+                           initial_cwnd=[10.0, 2.0, 20.0][v], retransmit_timeout_s=[0.2, 0.5, 0.1][v]) for i in range(2)]
+    names = ZipfDistribution(hosts, s=1.0, seed=seed + 9)
+
+    def body(self, event):
+        n = event.context["request_id"]
+        host = names.sample()
+        ip = yield from dns.resolve(host)
+        if ip is None:
+            self.log.append(["nxdomain", host]) if len(self.log) < 40 else None
+            return None
+        conn = conns[n % len(conns)]
+        yield from conn.send(size_bytes=[20_000, 100_000, 3_000][v] * (1 + n % 3))
+        return None
+
+    clients = [Script(f"client{i}", body) for i in range(3)]
+    srcs = [req_source(f"src{i}", c, [8, 2, 40][v], poisson=(i == 0), stop_after=4.0) for i, c in enumerate(clients)]
+    sim = Simulation(sources=srcs, entities=[dns, *conns, *clients], duration=8.0)
+    sim.schedule(Event.once(time=T(2.0), event_type="AddRecord",
+                            fn=lambda e: dns.add_record(DNSRecord(hosts[10], "10.0.1.1", ttl_s=1.0))))
+
+    def stats():
+        return {"dns": {"stats": _clean(dns.stats), "cache_size": dns.cache_size},
+                "tcp": [{"stats": _clean(c.stats), "cwnd": c.cwnd, "rtt": c.rtt_s,
+                         "throughput": c.throughput_segments_per_s} for c in conns],
+                "clients": [script_stats(c) for c in clients]}
+
+    return sim, stats
+
+
+# ---------------------------------------------------------------------------
+# industrial
+# ---------------------------------------------------------------------------
+
+@scenario
+def industrial_service_operations(seed, variant):
+    """Appointments + walk-ins through a gate, routed to a shifted server (balking) and a reneging counter."""
+    from happysimulator.components.industrial import (AppointmentScheduler, BalkingQueue, ConditionalRouter, GateController,
+                                                      RenegingQueuedResource, Shift, ShiftedServer, ShiftSchedule)
+
+    _seed(seed)
+    v = variant % 3
+    done = Sink("served")
+    left = Counter("left")
+
+    class Counter2(RenegingQueuedResource):
+        def __init__(self, name, service_s):
+            super().__init__(name, reneged_target=left, default_patience_s=[0.3, 0.1, 1.0][v],
+                             policy=[FIFOQueue(), LIFOQueue(), FIFOQueue(capacity=5)][v])
+            self.service_s = service_s
+            self.busy = False
+
+        def has_capacity(self):
+            return not self.busy
+
+        def _handle_served_event(self, event):
+            self.busy = True
+            yield self.service_s
+            self.busy = False
+            return [self.forward(event, done)]
+
+    teller = ShiftedServer("teller",
+                           schedule=ShiftSchedule([Shift(0.0, 2.0, [1, 2, 1][v]), Shift(2.0, 3.0, 0), Shift(3.0, 6.0, [3, 1, 2][v])],
+                                                  default_capacity=1),
+                           service_time=[0.05, 0.08, 0.03][v], downstream=done,
+                           policy=BalkingQueue(FIFOQueue(), balk_threshold=[5, 3, 10][v], balk_probability=[1.0, 0.5, 0.8][v]))
+    express = Counter2("express_counter", [0.04, 0.06, 0.02][v])
+    router = ConditionalRouter.by_context_field("router", "kind", {"appointment": teller, "express": express},
+                                                default=teller)
+    gate = GateController("gate", downstream=router, schedule=[(0.5, 2.5), (3.0, 5.5)], initially_open=(v != 1),
+                          queue_capacity=[0, 10, 3][v])
+
+    class Tag(Entity):
+        """Stamps appointment arrivals with a kind before the router."""
+
+        def handle_event(self, event):
+            event.context["kind"] = "appointment"
+            return [self.forward(event, gate)]
+
+    tag = Tag("appointment_desk")
+    appts = AppointmentScheduler("appointments", target=tag, appointments=[0.2 * k for k in range(1, 28)],
+                                 no_show_rate=[0.1, 0.3, 0.0][v])
+    walkins = req_source("walkins", gate, [25, 40, 15][v], poisson=True, stop_after=5.5,
+                         ctx=lambda t, n: {"kind": "express" if n % 2 else "walkin",
+                                           "patience_s": 0.05 + 0.05 * (n % 7)})
+    sim = Simulation(sources=[walkins], entities=[done, left, teller, express, router, gate, tag, appts], duration=7.0)
+    for e in appts.start_events():
+        sim.schedule(e)
+    for e in gate.start_events():
+        sim.schedule(e)
+
+    def stats():
+        return {"served": sink_stats(done), "left": counter_stats(left), "teller": pub(teller), "express": pub(express),
+                "express_reneging": _clean(express.reneging_stats), "router": pub(router), "gate": pub(gate),
+                "appointments": _clean(appts.stats), "balked": teller.stats_dropped}
+
+    return sim, stats
+
+
+@scenario
+def industrial_manufacturing_line(seed, variant):
+    """Conveyor -> machine with breakdowns -> inspection -> batch oven -> pooled packing; rework via split/merge."""
+    from happysimulator.components.industrial import (BatchProcessor, BreakdownScheduler, ConveyorBelt, InspectionStation,
+                                                      PooledCycleResource, SplitMerge)
+
+    _seed(seed)
+    v = variant % 3
+    shipped = Sink("shipped")
+    scrap = Counter("scrap")
+    packing = PooledCycleResource("packing", pool_size=[2, 1, 4][v], cycle_time=[0.1, 0.3, 0.05][v], downstream=shipped,
+                                  queue_capacity=[10, 3, 0][v])
+    oven = BatchProcessor("oven", downstream=packing, batch_size=[5, 8, 3][v], process_time=[0.2, 0.5, 0.1][v],
+                          timeout_s=[0.5, 0.0, 0.25][v])
+    testers = [ReplyServer(f"tester{i}", delay=0.02 * (i + 1)) for i in range(3)]
+    rework = SplitMerge("rework", targets=testers, downstream=oven)
+    inspection = InspectionStation("inspection", pass_target=oven, fail_target=(rework if v != 1 else scrap),
+                                   inspection_time=[0.02, 0.05, 0.01][v], pass_rate=[0.9, 0.7, 0.95][v])
+
+    class Machine(QueuedResource):
+        def __init__(self):
+            super().__init__("machine", policy=FIFOQueue(capacity=[50, 10, 100][v]))
+            self._broken = False
+            self.busy = False
+            self.made = 0
+            self.stalls = 0
+
+        def has_capacity(self):
+            return not self.busy
+
+        def handle_queued_event(self, event):
+            self.busy = True
+            while self._broken:
+                self.stalls += 1
+                yield 0.05
+            yield [0.03, 0.06, 0.015][v]
+            self.busy = False
+            self.made += 1
+            return [self.forward(event, inspection)]
+
+    machine = Machine()
+    breakdown = BreakdownScheduler("breakdowns", target=machine, mean_time_to_failure=[1.0, 0.5, 3.0][v],
+                                   mean_repair_time=[0.2, 0.4, 0.1][v])
+    belt = ConveyorBelt("belt", downstream=machine, transit_time=[0.2, 0.5, 0.1][v], capacity=[0, 5, 20][v])
+    src = req_source("raw_material", belt, [20, 12, 45][v], poisson=(v != 0), stop_after=5.0)
+    sim = Simulation(sources=[src], entities=[shipped, scrap, packing, oven, rework, inspection, machine, breakdown, belt,
+                                              *testers], duration=8.0)
+    sim.schedule(breakdown.start_event())
+
+    def stats():
+        return {"shipped": sink_stats(shipped), "scrap": counter_stats(scrap), "packing": pub(packing), "oven": pub(oven),
+                "rework": _clean(rework.stats), "inspection": pub(inspection),
+                "machine": {"made": machine.made, "stalls": machine.stalls, "depth": machine.depth,
+                            "dropped": machine.stats_dropped},
+                "breakdowns": pub(breakdown), "belt": pub(belt)}
+
+    return sim, stats
+
+
+@scenario
+def industrial_inventory(seed, variant):
+    """(s, Q) InventoryBuffer and PerishableInventory under bursty demand with lead times and spoilage."""
+    from happysimulator.components.industrial import InventoryBuffer, PerishableInventory
+
+    _seed(seed)
+    v = variant % 3
+    fulfilled = Sink("fulfilled")
+    stockouts = Counter("stockouts")
+    waste = Counter("waste")
+    inv = InventoryBuffer("inventory", initial_stock=[30, 10, 100][v], reorder_point=[10, 5, 40][v],
+                          order_quantity=[25, 10, 60][v], lead_time=[0.5, 1.5, 0.2][v], downstream=fulfilled,
+                          stockout_target=stockouts)
+    fresh = PerishableInventory("fresh", initial_stock=[20, 40, 10][v], shelf_life_s=[1.0, 0.5, 2.0][v],
+                                spoilage_check_interval_s=[0.25, 0.1, 0.5][v], reorder_point=[8, 10, 4][v],
+                                order_quantity=[20, 30, 10][v], lead_time=[0.3, 0.8, 0.1][v], downstream=fulfilled,
+                                waste_target=waste)
+    demand = req_source("demand", inv, [30, 15, 80][v], poisson=True, stop_after=6.0,
+                        ctx=lambda t, n: {"quantity": 1 + n % [3, 5, 2][v]})
+    demand2 = req_source("fresh_demand", fresh, [15, 25, 8][v], poisson=(v != 1), stop_after=6.0,
+                         ctx=lambda t, n: {"quantity": 1 + n % 2})
+    sim = Simulation(sources=[demand, demand2], entities=[inv, fresh, fulfilled, stockouts, waste], duration=8.0)
+    sim.schedule(fresh.start_event())
+
+    def stats():
+        return {"inventory": {"stats": _clean(inv.stats), "stock": inv.stock, "fill_rate": inv.stats.fill_rate},
+                "fresh": {"stats": _clean(fresh.stats), "stock": fresh.stock}, "fulfilled": sink_stats(fulfilled),
+                "stockouts": counter_stats(stockouts), "waste": counter_stats(waste)}
+
+    return sim, stats
+
+
+# ---------------------------------------------------------------------------
+# scheduling
+# ---------------------------------------------------------------------------
+
+@scenario
+def scheduling_job_dag(seed, variant):
+    """JobScheduler running a DAG of periodic jobs (dependencies, priorities, overlapping runs, enable/disable)."""
+    from happysimulator import JobDefinition, JobScheduler
+
+    _seed(seed)
+    v = variant % 3
+    workers = {n: DelayServer(f"worker_{n}", delay=d) for n, d in
+               [("extract", [0.3, 0.8, 0.1][v]), ("transform", [0.2, 0.5, 0.05][v]), ("load", [0.1, 0.3, 0.02][v]),
+                ("report", [0.05, 1.5, 0.2][v]), ("cleanup", 0.01)]}
+    sched = JobScheduler("scheduler", tick_interval=[0.25, 0.5, 0.1][v])
+    sched.add_job(JobDefinition("extract", workers["extract"], "RunExtract", interval=[1.0, 1.0, 0.3][v], priority=5))
+    sched.add_job(JobDefinition("transform", workers["transform"], "RunTransform", interval=[1.0, 1.5, 0.3][v],
+                                depends_on=["extract"], priority=3))
+    sched.add_job(JobDefinition("load", workers["load"], "RunLoad", interval=[1.0, 2.0, 0.3][v],
+                                depends_on=["transform"], context={"table": "facts"}))
+    sched.add_job(JobDefinition("report", workers["report"], "RunReport", interval=[2.0, 1.0, 0.5][v],
+                                depends_on=["load", "extract"], priority=1))
+    sched.add_job(JobDefinition("cleanup", workers["cleanup"], "RunCleanup", interval=[0.5, 0.7, 0.2][v], priority=9,
+                                enabled=(v != 1)))
+    sim = Simulation(entities=[sched, *workers.values()], duration=[10.0, 12.0, 6.0][v])
+    sim.schedule(Event.once(time=T(0.0), event_type="StartScheduler", fn=lambda e: sched.start()))
+    sim.schedule(Event.once(time=T(3.0), event_type="Toggle",
+                            fn=lambda e: sched.enable_job("cleanup") if v == 1 else sched.disable_job("cleanup")))
+    sim.schedule(Event.once(time=T(5.0), event_type="Remove", fn=lambda e: sched.remove_job("report")))
+
+    def stats():
+        return {"scheduler": pub(sched), "jobs": {n: _clean(sched.get_job_state(n)) for n in sched.job_names},
+                "workers": {n: pub(w) for n, w in workers.items()}}
+
+    return sim, stats
+
+
+@scenario
+def scheduling_work_stealing(seed, variant):
+    """WorkStealingPool with skewed task sizes; RandomRouter spraying tasks over two pools."""
+    from happysimulator import RandomRouter, WorkStealingPool
+
+    _seed(seed)
+    v = variant % 3
+    done = Sink("done")
+    pools = [WorkStealingPool(f"pool{i}", num_workers=[4, 2, 8][v], downstream=done,
+                              default_processing_time=[0.05, 0.1, 0.02][v]) for i in range(2)]
+    router = RandomRouter("router", targets=pools)
+
+    def ctx(t, n):
+        big = n % [10, 4, 25][v] == 0
+        return {"metadata": {"processing_time": ([0.5, 0.4, 0.3][v] if big else [0.02, 0.05, 0.01][v])} if n % 3 else {}}
+
+    srcs = [req_source("tasks", router, [80, 30, 120][v], poisson=True, stop_after=4.0, ctx=ctx),
+            req_source("direct", pools[0], [10, 10, 30][v], stop_after=4.0, ctx=ctx)]
+    sim = Simulation(sources=srcs, entities=[done, router, *pools], duration=8.0)
+
+    def stats():
+        return {"done": sink_stats(done), "router": {"routed": router.stats_routed, "counts": dict(router.target_counts)},
+                "pools": [{"stats": _clean(p.stats), "workers": [_clean(w) for w in p.worker_stats]} for p in pools]}
+
+    return sim, stats
+
+
+# ---------------------------------------------------------------------------
+# behavior / agents
+# ---------------------------------------------------------------------------
+
+@scenario
+def behavior_population_market(seed, variant):
+    """A small Population reacting to broadcast / targeted stimuli, price changes and social influence rounds."""
+    from happysimulator import (BehaviorEnvironment, BoundedConfidenceModel, BoundedRationalityModel, Choice, DeGrootModel,
+                                Population, Rule, RuleBasedModel, UtilityModel, VoterModel, broadcast_stimulus,
+                                influence_propagation, policy_announcement, price_change, targeted_stimulus)
+
+    _seed(seed)
+    v = variant % 3
+    purchases = Counter("purchases")
+
+    def utility(choice, ctx):
+        return {"buy": 0.6, "wait": 0.4, "complain": 0.1}.get(choice.action, 0.0)
+
+    model = [UtilityModel(utility_fn=utility, temperature=0.5),
+             RuleBasedModel(rules=[Rule(condition=lambda ctx: True, action="buy", priority=1)], default_action="wait"),
+             BoundedRationalityModel(utility_fn=utility, aspiration=0.5)][v]
+    pop = Population.uniform(size=[12, 20, 8][v], decision_model=model,
+                             graph_type=["small_world", "complete", "random"][v], seed=seed)
+    for a in pop.agents:
+        a.action_delay = [0.05, 0.0, 0.2][v]
+        a.on_action("buy", lambda ag, choice, event: [Event(time=ag.now, event_type="Purchase", target=purchases)])
+        a.on_action("wait", lambda ag, choice, event: None)
+    env = BehaviorEnvironment(name="market", agents=pop.agents, social_graph=pop.social_graph,
+                              influence_model=[DeGrootModel(self_weight=0.3), BoundedConfidenceModel(epsilon=0.4),
+                                               VoterModel()][v], seed=seed)
+    sim = Simulation(entities=[env, purchases, *pop.agents], duration=12.0)
+    for k in range(1, 11):
+        sim.schedule(broadcast_stimulus(float(k), env, "Promo", choices=["buy", "wait", Choice(action="complain")]))
+        sim.schedule(influence_propagation(k + 0.5, env, topic="sentiment"))
+    sim.schedule(price_change(3.2, env, "widget", 100.0, 80.0))
+    sim.schedule(policy_announcement(5.2, env, "tax", "new tax", valence=-0.5))
+    sim.schedule(targeted_stimulus(6.2, env, [a.name for a in pop.agents[:3]], "VIP", choices=["buy", "wait"]))
+
+    def stats():
+        return {"purchases": counter_stats(purchases), "env": _clean(env.stats), "population": _clean(pop.stats),
+                "agents": [_clean(a.stats) for a in pop.agents[:8]]}
+
+    return sim, stats
+
+
+# ---------------------------------------------------------------------------
+# sketching collectors
+# ---------------------------------------------------------------------------
+
+@scenario
+def sketching_collectors(seed, variant):
+    """Requests fanned out to QuantileEstimator, TopKCollector and SketchCollectors (CMS, HLL, Bloom, reservoir)."""
+    from happysimulator import (BloomFilter, CountMinSketch, HyperLogLog, QuantileEstimator, ReservoirSampler,
+                                SketchCollector, TDigest, TopKCollector, ZipfDistribution)
+
+    _seed(seed)
+    v = variant % 3
+    rng = random.Random(seed * 101 + v)
+    n_keys = [50, 200, 30][v]
+    # variants 0/1 use integer customer ids; variant 2 uses string ids (CountMinSketch hashes items with the
+    # builtin hash(), so its estimates for string items depend on PYTHONHASHSEED)
+    population = list(range(n_keys)) if v != 2 else [f"customer-{i}" for i in range(n_keys)]
+    customers = ZipfDistribution(population, s=[1.0, 1.3, 0.7][v], seed=seed + 11)
+    quant = QuantileEstimator("quantiles", value_extractor=lambda e: e.context.get("latency"),
+                              compression=[100.0, 20.0, 200.0][v], seed=seed)
+    topk = TopKCollector("topk", k=[5, 10, 3][v], value_extractor=lambda e: e.context["customer"], seed=seed)
+    cms = SketchCollector("cms", sketch=CountMinSketch(width=[64, 256, 32][v], depth=4, seed=seed),
+                          value_extractor=lambda e: e.context["customer"], weight_extractor=lambda e: e.context["weight"])
+    hll = SketchCollector("hll", sketch=HyperLogLog(precision=[8, 12, 6][v], seed=seed),
+                          value_extractor=lambda e: e.context["customer"])
+    bloom = SketchCollector("bloom", sketch=BloomFilter(size_bits=[512, 4096, 128][v], num_hashes=[3, None, 2][v], seed=seed),
+                            value_extractor=lambda e: e.context["customer"])
+    sample = SketchCollector("reservoir", sketch=ReservoirSampler(size=[10, 25, 5][v], seed=seed),
+                             value_extractor=lambda e: e.context["request_id"])
+    digest = SketchCollector("tdigest", sketch=TDigest(compression=50.0, seed=seed),
+                             value_extractor=lambda e: e.context["latency"])
+    collectors = [quant, topk, cms, hll, bloom, sample, digest]
+    exact: dict = {}
+
+    class FanOut(Entity):
+        def handle_event(self, event):
+            yield event.context["latency"]  # the request takes its latency to complete
+            return [self.forward(event, c) for c in collectors]
+
+    fan = FanOut("fanout")
+
+    def ctx(t, n):
+        c = customers.sample()
+        exact[c] = exact.get(c, 0) + 1
+        return {"customer": c, "latency": rng.expovariate(1 / [0.05, 0.2, 0.01][v]), "weight": 1 + n % 3}
+
+    src = req_source("src", fan, [80, 40, 110][v], poisson=True, stop_after=4.0, ctx=ctx)
+    sim = Simulation(sources=[src], entities=[fan, *collectors], duration=7.0)
+
+    def stats():
+        top_exact = sorted(exact.items(), key=lambda kv: (-kv[1], str(kv[0])))[:5]
+        return {"quantiles": {"n": quant.sample_count, "p50": quant.percentile(50), "p99": quant.percentile(99),
+                              "min": quant.min, "max": quant.max, "cdf": quant.cdf(0.05), "summary": _clean(quant.summary())},
+                "topk": {"top": [_clean(f) for f in topk.top()], "total": topk.total_count, "tracked": topk.tracked_count,
+                         "max_error": topk.max_error(), "exact_top": [[str(k), c] for k, c in top_exact]},
+                "cms": {"estimates": {str(k): cms.sketch.estimate(k) for k, _ in top_exact}, "items": cms.sketch.item_count},
+                "hll": {"cardinality": hll.sketch.cardinality(), "exact": len(exact)},
+                "bloom": {"fpr": bloom.sketch.false_positive_rate, "fill": bloom.sketch.fill_ratio,
+                          "contains_all": all(bloom.sketch.contains(k) for k in exact)},
+                "reservoir": sorted(sample.sketch.sample()),
+                "tdigest": {"p50": digest.sketch.quantile(0.5), "p999": digest.sketch.quantile(0.999)},
+                "processed": [c.events_processed for c in collectors]}
+
+    return sim, stats
+
+
+# ---------------------------------------------------------------------------
+# fault injection
+# ---------------------------------------------------------------------------
+
+@scenario
+def faults_schedule_pipeline(seed, variant):
+    """FaultSchedule (crash, pause, partition, latency, loss, random partitions) on a small pipeline."""
+    from happysimulator import FaultSchedule, Network, Resource, datacenter_network
+    from happysimulator.components.server import Server
+    from happysimulator.faults import (CrashNode, InjectLatency, InjectPacketLoss, NetworkPartition, PauseNode,
+                                       RandomPartition)
+
+    _seed(seed)
+    v = variant % 3
+    net = Network(name="net")
+    sink = Sink("sink")
+    db_pool = Resource("db_pool", capacity=[4, 2, 8][v])
+
+    class Worker(Entity):
+        """Receives requests over the network, takes a db connection, answers the frontend."""
+
+        def __init__(self, name):
+            super().__init__(name)
+            self.handled = 0
+
+        def handle_event(self, event):
+            grant = yield db_pool.acquire(1)
+            yield [0.02, 0.05, 0.01][v]
+            grant.release()
+            self.handled += 1
+            return [net.send(self, frontend, "Reply", payload={"created_ns": event.context["metadata"]["created_ns"]})]
+
+    class Frontend(Entity):
+        def __init__(self, name, workers):
+            super().__init__(name)
+            self.workers = workers
+            self.sent = 0
+            self.replies = 0
+            self.rtts: list[float] = []
+
+        def handle_event(self, event):
+            if event.event_type == "Reply":
+                self.replies += 1
+                self.rtts.append((self.now.nanoseconds - event.context["metadata"]["created_ns"]) / 1e9)
+                return [Event(time=self.now, event_type="Done", target=sink)]
+            self.sent += 1
+            w = self.workers[self.sent % len(self.workers)]
+            return [net.send(self, w, "Work", payload={"created_ns": self.now.nanoseconds})]
+
+    workers = [Worker(f"worker{i}") for i in range(3)]
+    frontend = Frontend("frontend", workers)
+    for w in workers:
+        net.add_bidirectional_link(frontend, w, datacenter_network(f"link_{w.name}"))
+    queue_server = Server("batch_server", concurrency=1, service_time=ConstantLatency(0.03), downstream=sink)
+    faults = FaultSchedule("faults")
+    faults.add(CrashNode("worker0", at=1.0, restart_at=[2.0, None, 1.5][v]))
+    faults.add(PauseNode("worker1", start=2.5, end=3.0))
+    faults.add(NetworkPartition(["frontend"], ["worker2"], start=1.5, end=2.2, asymmetric=(v == 1)))
+    faults.add(InjectLatency("frontend", "worker1", extra_ms=[50.0, 200.0, 5.0][v], start=0.5, end=1.5))
+    faults.add(InjectPacketLoss("frontend", "worker2", loss_rate=[0.3, 0.8, 0.1][v], start=3.0, end=4.0))
+    faults.add(PauseNode("batch_server", start=2.0, end=2.6))
+    if v == 2:
+        faults.add(RandomPartition(["frontend", "worker0", "worker1", "worker2"], mtbf=1.0, mttr=0.3, seed=seed))
+    cancelled = faults.add(CrashNode("frontend", at=4.0))
+    cancelled.cancel()
+    srcs = [req_source("src", frontend, [60, 30, 120][v], poisson=True, stop_after=5.0),
+            req_source("batch", queue_server, 20, stop_after=5.0)]
+    sim = Simulation(sources=srcs, entities=[net, sink, db_pool, frontend, queue_server, *workers], duration=7.0,
+                     fault_schedule=faults)
+
+    def stats():
+        return {"faults": _clean(faults.stats), "frontend": {"sent": frontend.sent, "replies": frontend.replies,
+                                                             "rtt_max": max(frontend.rtts) if frontend.rtts else 0.0,
+                                                             "rtt_sum": sum(frontend.rtts)},
+                "workers": [w.handled for w in workers], "db_pool": pub(db_pool), "sink": sink_stats(sink),
+                "batch_server": _clean(queue_server.stats), "batch_depth": queue_server.depth,
+                "net": {"routed": net.events_routed, "partition_drops": net.events_dropped_partition},
+                "traffic": [_clean(t) for t in net.traffic_matrix()]}
+
+    return sim, stats
+
+
+@scenario
+def faults_reduce_capacity(seed, variant):
+    """ReduceCapacity fault on a contended Resource whose grants are held across the fault window."""
+    from happysimulator import FaultSchedule, Resource
+    from happysimulator.faults import ReduceCapacity
+
+    _seed(seed)
+    v = variant % 3
+    rng = random.Random(seed * 103 + v)
+    pool = Resource("pool", capacity=[4, 10, 2][v])
+    faults = FaultSchedule("faults")
+    faults.add(ReduceCapacity("pool", factor=[0.5, 0.2, 0.5][v], start=1.5, end=[2.5, 3.0, 1.6][v]))
+    if v == 1:
+        faults.add(ReduceCapacity("pool", factor=0.5, start=2.0, end=4.0))  # overlapping reductions
+    shared = {"done": 0}
+
+    def body(self, event):
+        n = event.context["request_id"]
+        grant = yield pool.acquire(1 + n % [2, 2, 1][v])
+        yield [0.1, 0.3, 0.05][v] * (0.5 + rng.random())
+        grant.release()
+        shared["done"] += 1
+        return None
+
+    # variants 0/1 let an exception raised by Grant.release() propagate out of sim.run(); variant 2 records it
+    # in the worker's `errors` and keeps running, to observe the resource after the fault window
+    workers = [Script(f"worker{i}", body, catch=(v == 2)) for i in range(3)]
+    srcs = [req_source(f"src{i}", w, [10, 6, 15][v], poisson=(i == 0), stop_after=4.0) for i, w in enumerate(workers)]
+    sim = Simulation(sources=srcs, entities=[pool, *workers], duration=6.0, fault_schedule=faults)
+
+    def stats():
+        return {"pool": pub(pool), "faults": _clean(faults.stats), "shared": shared,
+                "workers": [{"runs": w.runs, "done": w.done, "errors": w.errors[:5]} for w in workers]}
+
+    return sim, stats
+
+
+# ---------------------------------------------------------------------------
+# probes / instrumentation / control / clocks
+# ---------------------------------------------------------------------------
+
+@scenario
+def instrumentation_probes_trackers(seed, variant):
+    """Probes sampling a server's depth/utilisation, LatencyTracker + ThroughputTracker downstream."""
+    from happysimulator import LatencyTracker, Probe, ThroughputTracker
+    from happysimulator.components.server import Server
+
+    _seed(seed)
+    v = variant % 3
+    latency = LatencyTracker("latency_tracker")
+    throughput = ThroughputTracker("throughput_tracker")
+
+    class Tee(Entity):
+        def handle_event(self, event):
+            return [self.forward(event, latency), self.forward(event, throughput)]
+
+    tee = Tee("tee")
+    server = Server("server", concurrency=[1, 2, 4][v], service_time=ExponentialLatency([0.02, 0.05, 0.01][v]),
+                    queue_capacity=[None, 20, 100][v], downstream=tee)
+    probes, data = Probe.on_many(server, ["depth", "utilization", "active_requests"], interval=[0.1, 0.25, 0.05][v])
+    extra_probe, extra = Probe.on(latency, "count" if hasattr(latency, "count") else "name", interval=0.5)
+    src = req_source("src", server, [30, 20, 40][v], poisson=True, stop_after=5.0)
+    burst = req_source("burst", server, [60, 40, 80][v], poisson=False, stop_after=2.0)
+    sim = Simulation(sources=[src, burst], entities=[server, tee, latency, throughput], probes=[*probes, extra_probe],
+                     duration=7.0)
+
+    def stats():
+        out = {"server": _clean(server.stats), "dropped": server.stats_dropped,
+               "latency": {"p50": latency.p50(), "p99": latency.p99(), "mean": latency.mean_latency(),
+                           "buckets": latency.summary(window_s=1.0).to_dict()},
+               "throughput": throughput.throughput(window_s=1.0).to_dict()}
+        for name, d in data.items():
+            out[f"probe_{name}"] = {"n": d.count(), "mean": d.mean(), "max": d.max(), "p99": d.percentile(0.99),
+                                    "between": d.between(2.0, 4.0).mean(), "rate": d.rate(1.0).raw_values()[:8],
+                                    "bucket_means": d.bucket(1.0).means()}
+        return out
+
+    return sim, stats
+
+
+@scenario
+def core_control_hooks_tracing(seed, variant):
+    """The non-fast run loop: control hooks (no pause), in-memory trace recorder, infinite end with auto-terminate."""
+    from happysimulator import ConditionBreakpoint
+    from happysimulator.components.server import Server
+    from happysimulator.instrumentation.recorder import InMemoryTraceRecorder
+
+    _seed(seed)
+    v = variant % 3
+    sink = Sink("sink")
+    server = Server("server", concurrency=2, service_time=ExponentialLatency(0.03), downstream=sink)
+    src = req_source("src", server, [50, 80, 30][v], poisson=True, stop_after=3.0)
+    recorder = InMemoryTraceRecorder() if v != 0 else None
+    sim = Simulation(sources=[src], entities=[server, sink], duration=5.0, trace_recorder=recorder)
+    seen = {"events": 0, "advances": 0, "types": {}}
+    if v != 1:
+        def on_event(e):
+            seen["events"] += 1
+            seen["types"][e.event_type] = seen["types"].get(e.event_type, 0) + 1
+
+        sim.control.on_event(on_event)
+        sim.control.on_time_advance(lambda t: seen.__setitem__("advances", seen["advances"] + 1))
+        sim.control.add_breakpoint(ConditionBreakpoint(fn=lambda ctx: False, description="never"))
+
+    def stats():
+        kinds: dict = {}
+        if recorder is not None:
+            for s in recorder.spans:
+                kinds[s["kind"]] = kinds.get(s["kind"], 0) + 1
+        return {"sink": sink_stats(sink), "server": _clean(server.stats), "seen": seen, "trace_kinds": kinds}
+
+    return sim, stats
+
+
+@scenario
+def core_node_and_logical_clocks(seed, variant):
+    """Nodes with skewed/drifting NodeClocks exchanging messages stamped by Lamport, vector and hybrid clocks."""
+    from happysimulator import (FixedSkew, HybridLogicalClock, LamportClock, LinearDrift, Network, NodeClock, VectorClock,
+                                datacenter_network, internet_network)
+
+    _seed(seed)
+    v = variant % 3
+    net = Network(name="net")
+    names = [f"peer{i}" for i in range(3)]
+
+    class Peer(Entity):
+        def __init__(self, name, model):
+            super().__init__(name)
+            self.node_clock = NodeClock(model)
+            self.lamport = LamportClock()
+            self.vector = VectorClock(name, names)
+            self.hlc = HybridLogicalClock(name, physical_clock=self.node_clock)
+            self.peers: list[Entity] = []
+            self.received = 0
+            self.causality_violations = 0
+            self.local_regressions = 0
+            self._last_local = None
+            self.log: list = []
+
+        def set_clock(self, clock):
+            super().set_clock(clock)
+            self.node_clock.set_clock(clock)
+
+        def handle_event(self, event):
+            local = self.node_clock.now
+            if self._last_local is not None and local < self._last_local:
+                self.local_regressions += 1
+            self._last_local = local
+            md = event.context.get("metadata", {})
+            if event.event_type == "Tick":
+                target = self.peers[event.context["request_id"] % len(self.peers)]
+                ts = self.hlc.send()
+                return [net.send(self, target, "Msg", payload={"lamport": self.lamport.send(), "vector": self.vector.send(),
+                                                               "hlc": ts.to_dict(), "sent_local_ns": local.nanoseconds})]
+            self.received += 1
+            before = self.lamport.time
+            self.lamport.receive(md["lamport"])
+            self.vector.receive(md["vector"])
+            from happysimulator import HLCTimestamp
+            remote = HLCTimestamp.from_dict(md["hlc"])
+            self.hlc.receive(remote)
+            if not (self.lamport.time > md["lamport"] and self.lamport.time > before):
+                self.causality_violations += 1
+            if len(self.log) < 30:
+                self.log.append([md["source"], md["lamport"], self.lamport.time, local.nanoseconds - md["sent_local_ns"]])
+            return None
+
+    models = [[None, FixedSkew(Duration.from_seconds(0.05)), FixedSkew(Duration.from_seconds(-0.02))],
+              [LinearDrift(rate_ppm=5000), LinearDrift(rate_ppm=-3000), None],
+              [FixedSkew(Duration.from_seconds(-0.5)), LinearDrift(rate_ppm=100000), FixedSkew(Duration.from_seconds(0.2))]][v]
+    peers = [Peer(n, m) for n, m in zip(names, models)]
+    for p in peers:
+        p.peers = [q for q in peers if q is not p]
+    _mesh(net, peers, [datacenter_network, internet_network, datacenter_network][v])
+    srcs = [req_source(f"tick{i}", p, [20, 10, 40][v] + 3 * i, poisson=(i == 0), stop_after=4.0, event_type="Tick")
+            for i, p in enumerate(peers)]
+    sim = Simulation(sources=srcs, entities=[net, *peers], duration=6.0)
+
+    def stats():
+        return {"peers": [{"name": p.name, "received": p.received, "lamport": p.lamport.time, "vector": p.vector.snapshot(),
+                           "hlc": p.hlc.now().to_dict(), "violations": p.causality_violations,
+                           "regressions": p.local_regressions, "log": p.log} for p in peers],
+                "concurrent": [[peers[i].vector.is_concurrent(peers[j].vector) for j in range(3)] for i in range(3)]}
+
+    return sim, stats
+
+
+@scenario
+def core_hooks_cancellation_ordering(seed, variant):
+    """Completion hooks, cancelled timers, daemon events and many same-instant events (pre-run and in-run)."""
+    _seed(seed)
+    v = variant % 3
+    rng = random.Random(seed * 107 + v)
+    sink = Sink("sink")
+    order: list = []
+
+    class TimerOwner(Entity):
+        """Arms a timeout per request and cancels it when the worker's completion hook fires first."""
+
+        def __init__(self, name, worker):
+            super().__init__(name)
+            self.worker = worker
+            self.timers: dict[int, Event] = {}
+            self.completed = 0
+            self.timed_out = 0
+            self.cancelled = 0
+
+        def handle_event(self, event):
+            n = event.context.get("request_id")
+            if event.event_type == "Timeout":
+                if self.timers.pop(n, None) is not None:
+                    self.timed_out += 1
+                return None
+            if event.event_type == "WorkDone":
+                t = self.timers.pop(n, None)
+                if t is not None:
+                    t.cancel()
+                    self.cancelled += 1
+                    self.completed += 1
+                    return [Event(time=self.now, event_type="Done", target=sink,
+                                  context={"created_at": event.context["started_at"]})]
+                return None
+            work = Event(time=self.now, event_type="Work", target=self.worker, context={"request_id": n})
+            work.add_completion_hook(lambda t, n=n, st=self.now: Event(time=t, event_type="WorkDone", target=self,
+                                                                       context={"request_id": n, "started_at": st}))
+            timer = Event(time=self.now + [0.05, 0.03, 0.1][v], event_type="Timeout", target=self,
+                          context={"request_id": n}, daemon=(n % 2 == 0))
+            self.timers[n] = timer
+            return [work, timer]
+
+    class Worker(Entity):
+        def handle_event(self, event):
+            yield rng.random() * [0.08, 0.06, 0.12][v]
+            return None
+
+    class Recorder(Entity):
+        def handle_event(self, event):
+            order.append(event.context["tag"])
+
+    worker = Worker("worker")
+    owner = TimerOwner("owner", worker)
+    rec = Recorder("recorder")
+    src = req_source("src", owner, [60, 120, 30][v], poisson=(v != 0), stop_after=4.0)
+    sim = Simulation(sources=[src], entities=[owner, worker, rec, sink], duration=6.0)
+    # same-instant batch scheduled before the run, in shuffled creation order
+    tags = list(range(20))
+    rng.shuffle(tags)
+    sim.schedule([Event(time=T(1.0), event_type="Tag", target=rec, context={"tag": f"pre{t}"}) for t in tags])
+
+    def burst(e):
+        return [Event(time=e.time, event_type="Tag", target=rec, context={"tag": f"run{k}"}) for k in range(20)]
+
+    sim.schedule(Event.once(time=T(1.0), event_type="Burst", fn=burst))
+
+    def stats():
+        return {"owner": {"completed": owner.completed, "timed_out": owner.timed_out, "cancelled": owner.cancelled,
+                          "pending": len(owner.timers)}, "sink": sink_stats(sink), "order": order,
+                "expected_pre": [f"pre{t}" for t in tags]}
 
     return sim, stats
